@@ -1,2 +1,1451 @@
-From Coq Require Import ZArith QArith List Bool Arith Lia.
+(* Proofs about TmapModel (model of /repo/src/tmap.c).  Overview:
+     rounding        rdiv = round-half-away of a quotient; Qround_haz_half, Qtrunc_lt1
+     search          search_loop_ok (no fault when x[length] is inside the heap object),
+                     search_junk_independent_lemma (no sortedness needed), search_loop_spec /
+                     search_seg_ok / seg_ok_unique (what the bisection selects on a sorted array),
+                     search_oob_iff_lemma (exact condition of the x[length] over-read)
+     interp          interp_monotone, interp_anchor, interp_linear_lemma, interp_at_half, interp_inverse
+     tmap level      tmap_* theorems used by Properties_C12_tmap.v, tmap_reachable (invariant of
+                     jls_tmap_alloc + jls_tmap_add), tmap_oob_refuted, tmap_equal_times_refuted
+     binary64 gap    c_binary64_within_one_partial: PARTIAL - what is proved is the error of the
+                     expression under the standard model of rounding (hypothesis fl_err); that gcc's
+                     binary64 arithmetic satisfies fl_err (it does for round-to-nearest without
+                     underflow; Flocq relative_error_N) and that the int64 -> double casts are exact
+                     (|dk|,|ds|,|dt| <= 2^53) is not proved here; the correspondence check measures it. *)
+From Coq Require Import ZArith QArith Qabs List Bool Arith Lia Lqa ZifyBool ZifyNat.
 From JLS Require Import Generated TmapModel.
+Import ListNotations.
+Ltac Zify.zify_post_hook ::= Z.to_euclidean_division_equations.
+Local Open Scope Z_scope.
+
+(* ------------------------------------------------------------------ *)
+
+(* ---------- rounding ---------- *)
+Definition rdiv (a b : Z) : Z :=
+  if 0 <=? a then (2 * a + b) / (2 * b) else - ((2 * (- a) + b) / (2 * b)).
+
+Lemma Qround_haz_make : forall a p, Qround_haz (a # p) = rdiv a (Zpos p).
+Proof. reflexivity. Qed.
+
+Lemma div_bounds : forall a b, 0 < b -> b * (a / b) <= a < b * (a / b) + b.
+Proof.
+  intros a b Hb. pose proof (Z.div_mod a b ltac:(lia)). pose proof (Z.mod_pos_bound a b Hb). lia.
+Qed.
+
+Lemma rdiv_half : forall a b, 0 < b -> 2 * rdiv a b * b - b <= 2 * a <= 2 * rdiv a b * b + b.
+Proof.
+  intros a b Hb. unfold rdiv. destruct (0 <=? a) eqn:Ha.
+  - pose proof (div_bounds (2 * a + b) (2 * b) ltac:(lia)) as H.
+    set (q := (2 * a + b) / (2 * b)) in *. nia.
+  - pose proof (div_bounds (2 * - a + b) (2 * b) ltac:(lia)) as H.
+    set (q := (2 * - a + b) / (2 * b)) in *. nia.
+Qed.
+
+Lemma rdiv_0 : forall b, 0 < b -> rdiv 0 b = 0.
+Proof.
+  intros b Hb. unfold rdiv. cbn [Z.leb Z.compare]. rewrite Z.mul_0_r, Z.add_0_l.
+  apply Z.div_small. lia.
+Qed.
+
+Lemma rdiv_nonneg : forall a b, 0 < b -> 0 <= a -> 0 <= rdiv a b.
+Proof.
+  intros a b Hb Ha. unfold rdiv. replace (0 <=? a) with true by lia.
+  apply Z.div_pos; lia.
+Qed.
+
+Lemma rdiv_nonpos : forall a b, 0 < b -> a <= 0 -> rdiv a b <= 0.
+Proof.
+  intros a b Hb Ha. unfold rdiv. destruct (0 <=? a) eqn:E.
+  - assert (a = 0) by lia. subst a. rewrite Z.mul_0_r, Z.add_0_l. rewrite Z.div_small; lia.
+  - assert (0 <= (2 * - a + b) / (2 * b)) by (apply Z.div_pos; lia). lia.
+Qed.
+
+Lemma rdiv_mono : forall a1 a2 b, 0 < b -> a1 <= a2 -> rdiv a1 b <= rdiv a2 b.
+Proof.
+  intros a1 a2 b Hb H.
+  destruct (Z_le_gt_dec 0 a1) as [H1|H1].
+  - unfold rdiv. replace (0 <=? a1) with true by lia. replace (0 <=? a2) with true by lia.
+    apply Z.div_le_mono; lia.
+  - destruct (Z_le_gt_dec 0 a2) as [H2|H2].
+    + pose proof (rdiv_nonneg a2 b Hb H2). pose proof (rdiv_nonpos a1 b Hb ltac:(lia)). lia.
+    + unfold rdiv. replace (0 <=? a1) with false by lia. replace (0 <=? a2) with false by lia.
+      assert ((2 * - a2 + b) / (2 * b) <= (2 * - a1 + b) / (2 * b)) by (apply Z.div_le_mono; lia).
+      lia.
+Qed.
+
+Lemma rdiv_exact : forall k b, 0 < b -> rdiv (k * b) b = k.
+Proof.
+  intros k b Hb. pose proof (rdiv_half (k * b) b Hb) as H.
+  set (r := rdiv (k * b) b) in *. nia.
+Qed.
+
+Lemma rdiv_le : forall a k b, 0 < b -> a <= k * b -> rdiv a b <= k.
+Proof. intros a k b Hb H. rewrite <- (rdiv_exact k b Hb). apply rdiv_mono; assumption. Qed.
+
+Lemma rdiv_ge : forall a k b, 0 < b -> k * b <= a -> k <= rdiv a b.
+Proof. intros a k b Hb H. rewrite <- (rdiv_exact k b Hb). apply rdiv_mono; assumption. Qed.
+
+(* the C expression dk * (dt / ds), evaluated in Q, then round() *)
+Lemma interp_k_eq : forall dk ds dt, 0 < ds -> interp_k dk ds dt = rdiv (dk * dt) ds.
+Proof.
+  intros dk ds dt Hds. destruct ds as [|p|p]; try lia.
+  unfold interp_k, Qdiv, Qinv, Qmult, inject_Z. cbn [Qnum Qden].
+  rewrite Qround_haz_make. f_equal.
+  - ring.
+Qed.
+
+Lemma Qround_haz_half : forall q : Q, (Qabs (inject_Z (Qround_haz q) - q) <= 1 # 2)%Q.
+Proof.
+  intros [n d]. rewrite Qround_haz_make.
+  pose proof (rdiv_half n (Zpos d) ltac:(lia)) as H.
+  apply Qabs_Qle_condition. unfold Qle, Qminus, Qplus, Qopp, inject_Z. cbn [Qnum Qden].
+  split; lia.
+Qed.
+
+Lemma Qtrunc_make : forall a p, Qtrunc (a # p) = Z.quot a (Zpos p).
+Proof. reflexivity. Qed.
+
+Lemma Qtrunc_lt1 : forall q : Q, (Qabs (inject_Z (Qtrunc q) - q) < 1)%Q.
+Proof.
+  intros [n d]. rewrite Qtrunc_make.
+  apply Qabs_Qlt_condition. unfold Qlt, Qminus, Qplus, Qopp, inject_Z. cbn [Qnum Qden].
+  split; lia.
+Qed.
+
+(* ------------------------------------------------------------------ *)
+
+(* ---------- memory reads ---------- *)
+Lemma rd_in : forall j ph xs i, (i < length xs)%nat -> rd j ph xs i = Ok (nth i xs 0).
+Proof. intros j ph xs i H. unfold rd. replace (i <? length xs)%nat with true by lia. reflexivity. Qed.
+
+Lemma rd_junk : forall j ph xs i, (length xs <= i)%nat -> (i < ph)%nat -> rd j ph xs i = Ok j.
+Proof.
+  intros j ph xs i H1 H2. unfold rd.
+  replace (i <? length xs)%nat with false by lia. replace (i <? ph)%nat with true by lia. reflexivity.
+Qed.
+
+Lemma rd_oob : forall j ph xs i, (length xs <= i)%nat -> (ph <= i)%nat -> rd j ph xs i = Fault OOB_read.
+Proof.
+  intros j ph xs i H1 H2. unfold rd.
+  replace (i <? length xs)%nat with false by lia. replace (i <? ph)%nat with false by lia. reflexivity.
+Qed.
+
+Lemma mid_bounds : forall low high : nat, (low < high)%nat ->
+  (low < (low + high + 1) / 2 <= high)%nat.
+Proof. intros. lia. Qed.
+
+(* ---------- the loop terminates without fault when x[length] is inside the heap object ---------- *)
+Lemma search_loop_ok : forall fuel j ph xs x0 low high,
+  (low <= high <= length xs)%nat -> (length xs < ph)%nat -> (high - low < fuel)%nat ->
+  exists r, search_loop fuel j ph xs x0 low high = Ok r /\ (low <= r <= high)%nat.
+Proof.
+  induction fuel as [|f IH]; intros j ph xs x0 low high Hlh Hph Hf; [lia|].
+  cbn [search_loop].
+  destruct (low <? high)%nat eqn:Elt; [|exists low; split; [reflexivity|lia]].
+  pose proof (mid_bounds low high ltac:(lia)) as Hm.
+  set (mid := ((low + high + 1) / 2)%nat) in *.
+  assert (Hrd : exists xm, rd j ph xs mid = Ok xm).
+  { destruct (Nat.lt_ge_cases mid (length xs)).
+    - eexists; apply rd_in; assumption.
+    - eexists; apply rd_junk; lia. }
+  destruct Hrd as [xm ->].
+  destruct (x0 =? xm) eqn:Eeq; [exists mid; split; [reflexivity|lia]|].
+  destruct (x0 <? xm) eqn:Elt2.
+  - destruct (IH j ph xs x0 low (mid - 1)%nat ltac:(lia) Hph ltac:(lia)) as [r [Hr Hb]].
+    exists r; split; [exact Hr|lia].
+  - destruct (IH j ph xs x0 mid high ltac:(lia) Hph ltac:(lia)) as [r [Hr Hb]].
+    exists r; split; [exact Hr|lia].
+Qed.
+
+(* ---------- junk independence: no sortedness needed ---------- *)
+Lemma search_loop_junk : forall fuel j j' ph xs x0 low high,
+  (low <= high <= length xs)%nat -> (length xs < ph)%nat -> (high - low < fuel)%nat ->
+  search_loop fuel j ph xs x0 low high = search_loop fuel j' ph xs x0 low high \/
+  exists a b, search_loop fuel j ph xs x0 low high = Ok a /\ search_loop fuel j' ph xs x0 low high = Ok b /\
+              (length xs - 1 <= a)%nat /\ (length xs - 1 <= b)%nat.
+Proof.
+  induction fuel as [|f IH]; intros j j' ph xs x0 low high Hlh Hph Hf; [lia|].
+  cbn [search_loop].
+  destruct (low <? high)%nat eqn:Elt; [|left; reflexivity].
+  pose proof (mid_bounds low high ltac:(lia)) as Hm.
+  set (mid := ((low + high + 1) / 2)%nat) in *.
+  destruct (Nat.lt_ge_cases mid (length xs)) as [Hin|Hout].
+  - rewrite !(rd_in _ _ _ _ Hin).
+    destruct (x0 =? nth mid xs 0); [left; reflexivity|].
+    destruct (x0 <? nth mid xs 0).
+    + apply IH; lia.
+    + apply IH; lia.
+  - (* mid = length: low = length - 1, high = length; whatever the junk, the result is >= length - 1 *)
+    assert (Hmid : mid = length xs) by lia.
+    assert (Hlow : low = (length xs - 1)%nat) by (subst mid; lia).
+    assert (Hhigh : high = length xs) by lia.
+    right.
+    assert (Hany : forall jj, exists a, (match rd jj ph xs mid with
+                     | Fault e => Fault e
+                     | Ok xm => if x0 =? xm then Ok mid
+                                else if x0 <? xm then search_loop f jj ph xs x0 low (mid - 1)%nat
+                                else search_loop f jj ph xs x0 mid high end) = Ok a /\ (length xs - 1 <= a)%nat).
+    { intros jj. rewrite (rd_junk jj ph xs mid ltac:(lia) ltac:(lia)).
+      destruct (x0 =? jj); [exists mid; split; [reflexivity|lia]|].
+      destruct (x0 <? jj).
+      - destruct (search_loop_ok f jj ph xs x0 low (mid - 1)%nat ltac:(lia) Hph ltac:(lia)) as [r [Hr Hb]].
+        exists r; split; [exact Hr|lia].
+      - destruct (search_loop_ok f jj ph xs x0 mid high ltac:(lia) Hph ltac:(lia)) as [r [Hr Hb]].
+        exists r; split; [exact Hr|lia]. }
+    destruct (Hany j) as [a [Ha Hab]]. destruct (Hany j') as [b [Hb Hbb]].
+    exists a, b. repeat split; assumption.
+Qed.
+
+Lemma clamp_top : forall len a, (len - 1 <= a)%nat -> clamp len a = (len - 2)%nat.
+Proof. intros len a H. unfold clamp. replace (len - 1 <=? a)%nat with true by lia. reflexivity. Qed.
+
+Theorem search_junk_independent_lemma : forall j j' ph xs x0,
+  (length xs < ph)%nat -> search j ph xs x0 = search j' ph xs x0.
+Proof.
+  intros j j' ph xs x0 Hph. unfold search.
+  destruct (search_loop_junk (S (length xs)) j j' ph xs x0 0%nat (length xs) ltac:(lia) Hph ltac:(lia))
+    as [->|[a [b [-> [-> [Ha Hb]]]]]]; [reflexivity|].
+  rewrite (clamp_top _ _ Ha), (clamp_top _ _ Hb). reflexivity.
+Qed.
+
+Theorem search_no_oob_lemma : forall j ph xs x0,
+  (length xs < ph)%nat ->
+  exists c, search j ph xs x0 = Ok c /\ (c <= length xs)%nat /\ (2 <= length xs -> c + 2 <= length xs)%nat.
+Proof.
+  intros j ph xs x0 Hph. unfold search.
+  destruct (search_loop_ok (S (length xs)) j ph xs x0 0%nat (length xs) ltac:(lia) Hph ltac:(lia)) as [r [-> Hb]].
+  eexists; split; [reflexivity|]. unfold clamp.
+  destruct (length xs - 1 <=? r)%nat eqn:E; lia.
+Qed.
+
+(* ------------------------------------------------------------------ *)
+
+Lemma sorted_lt_le : forall xs, sorted_lt xs -> sorted_le xs.
+Proof.
+  intros xs H i j Hij. destruct (Nat.eq_dec i j) as [->|Hne]; [lia|].
+  pose proof (H i j ltac:(lia)). lia.
+Qed.
+
+(* ---------- what the loop computes on a sorted array ---------- *)
+Lemma search_loop_spec : forall fuel j ph xs x0 low high,
+  sorted_lt xs ->
+  (low <= high <= length xs)%nat -> ((high < length xs)%nat \/ (length xs < ph)%nat) -> (high - low < fuel)%nat ->
+  (forall i, (0 < i <= low)%nat -> (i < length xs)%nat -> nth i xs 0 <= x0) ->
+  (forall i, (high < i < length xs)%nat -> x0 < nth i xs 0) ->
+  exists r, search_loop fuel j ph xs x0 low high = Ok r /\ (low <= r <= high)%nat /\
+    (forall i, (0 < i <= r)%nat -> (i < length xs)%nat -> nth i xs 0 <= x0) /\
+    (forall i, (r < i < length xs)%nat -> x0 < nth i xs 0).
+Proof.
+  induction fuel as [|f IH]; intros j ph xs x0 low high Hs Hlh Hph Hf Hlo Hhi; [lia|].
+  cbn [search_loop].
+  destruct (low <? high)%nat eqn:Elt.
+  2:{ exists low. split; [reflexivity|]. split; [lia|]. split; [exact Hlo|].
+      intros i Hi. apply Hhi. lia. }
+  pose proof (mid_bounds low high ltac:(lia)) as Hm.
+  set (mid := ((low + high + 1) / 2)%nat) in *.
+  destruct (Nat.lt_ge_cases mid (length xs)) as [Hin|Hout].
+  - rewrite (rd_in _ _ _ _ Hin).
+    destruct (x0 =? nth mid xs 0) eqn:Eeq.
+    + exists mid. split; [reflexivity|]. split; [lia|]. split.
+      * intros i Hi Hil. destruct (Nat.eq_dec i mid) as [->|Hne]; [lia|].
+        pose proof (Hs i mid ltac:(lia)). lia.
+      * intros i Hi. pose proof (Hs mid i ltac:(lia)). lia.
+    + destruct (x0 <? nth mid xs 0) eqn:Elt2.
+      * destruct (IH j ph xs x0 low (mid - 1)%nat Hs ltac:(lia) ltac:(lia) ltac:(lia) Hlo) as [r [Hr [Hb [H1 H2]]]].
+        { intros i Hi. destruct (Nat.eq_dec i mid) as [->|Hne]; [lia|].
+          pose proof (Hs mid i ltac:(lia)). lia. }
+        exists r. split; [exact Hr|]. split; [lia|]. split; assumption.
+      * destruct (IH j ph xs x0 mid high Hs ltac:(lia) ltac:(lia) ltac:(lia)) as [r [Hr [Hb [H1 H2]]]].
+        { intros i Hi Hil. destruct (Nat.eq_dec i mid) as [->|Hne]; [lia|].
+          pose proof (Hs i mid ltac:(lia)). lia. }
+        { exact Hhi. }
+        exists r. split; [exact Hr|]. split; [lia|]. split; assumption.
+  - assert (Hmid : mid = length xs) by lia.
+    assert (Hlow : low = (length xs - 1)%nat) by (subst mid; lia).
+    assert (Hhigh : high = length xs) by lia.
+    rewrite (rd_junk j ph xs mid ltac:(lia) ltac:(lia)).
+    assert (Hall : forall i, (0 < i)%nat -> (i < length xs)%nat -> nth i xs 0 <= x0).
+    { intros i Hi Hil. apply Hlo; lia. }
+    destruct (x0 =? j) eqn:Eeq.
+    + exists mid. split; [reflexivity|]. split; [lia|]. split.
+      * intros i Hi Hil. apply Hall; lia.
+      * intros i Hi. lia.
+    + destruct (x0 <? j) eqn:Elt2.
+      * destruct (IH j ph xs x0 low (mid - 1)%nat Hs ltac:(lia) ltac:(lia) ltac:(lia) Hlo) as [r [Hr [Hb [H1 H2]]]].
+        { intros i Hi. lia. }
+        exists r. split; [exact Hr|]. split; [lia|]. split; assumption.
+      * destruct (IH j ph xs x0 mid high Hs ltac:(lia) ltac:(lia) ltac:(lia)) as [r [Hr [Hb [H1 H2]]]].
+        { intros i Hi Hil. apply Hall; lia. }
+        { exact Hhi. }
+        exists r. split; [exact Hr|]. split; [lia|]. split; assumption.
+Qed.
+
+Lemma search_seg_ok : forall j ph xs x0,
+  sorted_lt xs -> (2 <= length xs)%nat -> (length xs < ph)%nat ->
+  exists c, search j ph xs x0 = Ok c /\ seg_ok xs x0 c.
+Proof.
+  intros j ph xs x0 Hs Hlen Hph. unfold search.
+  destruct (search_loop_spec (S (length xs)) j ph xs x0 0%nat (length xs) Hs ltac:(lia) (or_intror Hph) ltac:(lia))
+    as [r [-> [Hb [H1 H2]]]].
+  { intros i Hi. lia. }
+  { intros i Hi. lia. }
+  eexists. split; [reflexivity|]. unfold clamp, seg_ok.
+  destruct (length xs - 1 <=? r)%nat eqn:E.
+  - split; [lia|]. split.
+    + intros i Hi. apply H1; lia.
+    + intros i Hi Hil. lia.
+  - split; [lia|]. split.
+    + intros i Hi. apply H1; lia.
+    + intros i Hi Hil. apply H2; lia.
+Qed.
+
+Lemma seg_ok_unique : forall xs x0 c1 c2,
+  sorted_le xs -> seg_ok xs x0 c1 -> seg_ok xs x0 c2 -> c1 = c2.
+Proof.
+  intros xs x0 c1 c2 Hs [A1 [A2 A3]] [B1 [B2 B3]].
+  destruct (Nat.lt_trichotomy c1 c2) as [H|[H|H]]; [exfalso|assumption|exfalso].
+  - pose proof (B2 c2 ltac:(lia)). pose proof (A3 c2 ltac:(lia) ltac:(lia)). lia.
+  - pose proof (A2 c1 ltac:(lia)). pose proof (B3 c1 ltac:(lia) ltac:(lia)). lia.
+Qed.
+
+Lemma search_eq_seg : forall j ph xs x0 c,
+  sorted_lt xs -> (2 <= length xs)%nat -> (length xs < ph)%nat -> seg_ok xs x0 c ->
+  search j ph xs x0 = Ok c.
+Proof.
+  intros j ph xs x0 c Hs Hlen Hph Hc.
+  destruct (search_seg_ok j ph xs x0 Hs Hlen Hph) as [c' [-> Hc']].
+  f_equal. eapply seg_ok_unique; eauto using sorted_lt_le.
+Qed.
+
+(* the repaired bisection (high = length - 1): same segment, no read at or beyond length,
+   whatever the physical size and the junk *)
+Lemma search_fixed_seg_ok : forall xs x0,
+  sorted_lt xs -> (2 <= length xs)%nat ->
+  exists c, search_fixed xs x0 = Ok c /\ seg_ok xs x0 c.
+Proof.
+  intros xs x0 Hs Hlen. unfold search_fixed.
+  destruct (search_loop_spec (length xs) 0 0%nat xs x0 0%nat (length xs - 1)%nat Hs ltac:(lia) ltac:(left; lia) ltac:(lia))
+    as [r [-> [Hb [H1 H2]]]].
+  { intros i Hi. lia. }
+  { intros i Hi. lia. }
+  eexists. split; [reflexivity|]. unfold clamp, seg_ok.
+  destruct (length xs - 1 <=? r)%nat eqn:E.
+  - split; [lia|]. split.
+    + intros i Hi. apply H1; lia.
+    + intros i Hi Hil. lia.
+  - split; [lia|]. split.
+    + intros i Hi. apply H1; lia.
+    + intros i Hi Hil. apply H2; lia.
+Qed.
+
+Lemma search_fixed_eq : forall j ph xs x0,
+  sorted_lt xs -> (2 <= length xs)%nat -> (length xs < ph)%nat ->
+  search_fixed xs x0 = search j ph xs x0.
+Proof.
+  intros j ph xs x0 Hs Hlen Hph.
+  destruct (search_fixed_seg_ok xs x0 Hs Hlen) as [c [-> Hc]].
+  symmetry. apply search_eq_seg; assumption.
+Qed.
+
+(* segment facts *)
+Lemma seg_ok_inside : forall xs q i, sorted_lt xs -> (i + 1 < length xs)%nat ->
+  nth i xs 0 <= q < nth (S i) xs 0 -> seg_ok xs q i.
+Proof.
+  intros xs q i Hs Hi Hq. split; [lia|]. split.
+  - intros k Hk. destruct (Nat.eq_dec k i) as [->|Hne]; [lia|]. pose proof (Hs k i ltac:(lia)). lia.
+  - intros k Hk Hkl. destruct (Nat.eq_dec k (S i)) as [->|Hne]; [lia|]. pose proof (Hs (S i) k ltac:(lia)). lia.
+Qed.
+
+Lemma seg_ok_before : forall xs q, sorted_lt xs -> (2 <= length xs)%nat -> q < nth 0 xs 0 -> seg_ok xs q 0.
+Proof.
+  intros xs q Hs Hl Hq. split; [lia|]. split.
+  - intros k Hk. lia.
+  - intros k Hk Hkl. pose proof (Hs 0%nat k ltac:(lia)). lia.
+Qed.
+
+Lemma seg_ok_after : forall xs q, sorted_lt xs -> (2 <= length xs)%nat ->
+  nth (length xs - 1) xs 0 <= q -> seg_ok xs q (length xs - 2).
+Proof.
+  intros xs q Hs Hl Hq. split; [lia|]. split.
+  - intros k Hk. pose proof (Hs k (length xs - 1)%nat ltac:(lia)). lia.
+  - intros k Hk Hkl. lia.
+Qed.
+
+(* ---------- the over-read: exact condition ---------- *)
+Lemma search_loop_oob : forall fuel j ph xs x0 low,
+  sorted_lt xs -> (ph <= length xs)%nat -> (low < length xs)%nat -> (length xs - low < fuel)%nat ->
+  nth (length xs - 1) xs 0 < x0 ->
+  search_loop fuel j ph xs x0 low (length xs) = Fault OOB_read.
+Proof.
+  induction fuel as [|f IH]; intros j ph xs x0 low Hs Hph Hlow Hf Hq; [lia|].
+  cbn [search_loop]. replace (low <? length xs)%nat with true by lia.
+  pose proof (mid_bounds low (length xs) ltac:(lia)) as Hm.
+  set (mid := ((low + length xs + 1) / 2)%nat) in *.
+  destruct (Nat.lt_ge_cases mid (length xs)) as [Hin|Hout].
+  - rewrite (rd_in _ _ _ _ Hin).
+    assert (nth mid xs 0 <= nth (length xs - 1) xs 0).
+    { destruct (Nat.eq_dec mid (length xs - 1)) as [->|Hne]; [lia|]. pose proof (Hs mid (length xs - 1)%nat ltac:(lia)). lia. }
+    replace (x0 =? nth mid xs 0) with false by lia.
+    replace (x0 <? nth mid xs 0) with false by lia.
+    apply IH; try assumption; lia.
+  - rewrite (rd_oob j ph xs mid ltac:(lia) ltac:(lia)). reflexivity.
+Qed.
+
+Lemma search_loop_inb : forall fuel j ph xs x0 low high,
+  sorted_lt xs -> (low <= high <= length xs)%nat -> (high - low < fuel)%nat ->
+  (high = length xs -> low + 1 < length xs)%nat ->
+  x0 <= nth (length xs - 1) xs 0 ->
+  exists r, search_loop fuel j ph xs x0 low high = Ok r.
+Proof.
+  induction fuel as [|f IH]; intros j ph xs x0 low high Hs Hlh Hf Hinv Hq; [lia|].
+  cbn [search_loop].
+  destruct (low <? high)%nat eqn:Elt; [|eexists; reflexivity].
+  pose proof (mid_bounds low high ltac:(lia)) as Hm.
+  set (mid := ((low + high + 1) / 2)%nat) in *.
+  assert (Hin : (mid < length xs)%nat).
+  { destruct (Nat.eq_dec high (length xs)) as [He|Hne]; [|lia]. specialize (Hinv He). subst mid. lia. }
+  rewrite (rd_in _ _ _ _ Hin).
+  destruct (x0 =? nth mid xs 0) eqn:Eeq; [eexists; reflexivity|].
+  destruct (x0 <? nth mid xs 0) eqn:Elt2.
+  - apply IH; try assumption; lia.
+  - apply IH; try assumption; try lia.
+    intros He.
+    destruct (Nat.eq_dec mid (length xs - 1)) as [Hm1|Hm1]; [rewrite Hm1 in *; lia|lia].
+Qed.
+
+Theorem search_oob_iff_lemma : forall j ph xs x0,
+  sorted_lt xs -> (2 <= length xs)%nat -> (ph <= length xs)%nat ->
+  (search j ph xs x0 = Fault OOB_read <-> nth (length xs - 1) xs 0 < x0).
+Proof.
+  intros j ph xs x0 Hs Hl Hph. unfold search. split.
+  - intros H. destruct (Z_lt_ge_dec (nth (length xs - 1) xs 0) x0) as [Hq|Hq]; [assumption|exfalso].
+    destruct (search_loop_inb (S (length xs)) j ph xs x0 0%nat (length xs) Hs ltac:(lia) ltac:(lia) ltac:(lia) ltac:(lia)) as [r Hr].
+    rewrite Hr in H. discriminate.
+  - intros Hq. rewrite (search_loop_oob (S (length xs)) j ph xs x0 0%nat Hs Hph ltac:(lia) ltac:(lia) Hq). reflexivity.
+Qed.
+
+(* ------------------------------------------------------------------ *)
+
+Lemma in64_true : forall v, in64 v = true <-> - 2 ^ 63 <= v < 2 ^ 63.
+Proof. intros v. unfold in64. lia. Qed.
+
+Lemma all_in_nth : forall B l i, all_in B l -> (i < length l)%nat -> - B <= nth i l 0 <= B.
+Proof.
+  intros B l i H Hi. unfold all_in in H. rewrite Forall_forall in H. apply H. apply nth_In. exact Hi.
+Qed.
+
+(* the value interp_at returns, with round() expressed by rdiv *)
+Definition ival (xs ys : list Z) (c : nat) (x0 : Z) : Z :=
+  nth c ys 0 + rdiv ((x0 - nth c xs 0) * (nth (S c) ys 0 - nth c ys 0)) (nth (S c) xs 0 - nth c xs 0).
+
+Lemma interp_at_inv : forall xs ys c x0 v,
+  interp_at xs ys c x0 = Ok v ->
+  nth (S c) xs 0 - nth c xs 0 <> 0 /\
+  v = nth c ys 0 + interp_k (x0 - nth c xs 0) (nth (S c) xs 0 - nth c xs 0) (nth (S c) ys 0 - nth c ys 0).
+Proof.
+  intros xs ys c x0 v. unfold interp_at.
+  destruct (negb _); [discriminate|].
+  destruct (_ =? 0) eqn:E; [discriminate|].
+  destruct (negb _); [discriminate|].
+  intros H. inversion H. split; [lia|reflexivity].
+Qed.
+
+Lemma interp_at_inv_pos : forall xs ys c x0 v,
+  interp_at xs ys c x0 = Ok v -> 0 < nth (S c) xs 0 - nth c xs 0 -> v = ival xs ys c x0.
+Proof.
+  intros xs ys c x0 v H Hds. apply interp_at_inv in H. destruct H as [_ ->].
+  unfold ival. rewrite interp_k_eq by assumption. reflexivity.
+Qed.
+
+Lemma interp_at_ok : forall xs ys c x0,
+  0 < nth (S c) xs 0 - nth c xs 0 ->
+  in64 (x0 - nth c xs 0) = true -> in64 (nth (S c) xs 0 - nth c xs 0) = true ->
+  in64 (nth (S c) ys 0 - nth c ys 0) = true ->
+  in64 (ival xs ys c x0 - nth c ys 0) = true -> in64 (ival xs ys c x0) = true ->
+  interp_at xs ys c x0 = Ok (ival xs ys c x0).
+Proof.
+  intros xs ys c x0 Hds H1 H2 H3 H4 H5. unfold interp_at.
+  rewrite H1, H2, H3. cbn [andb negb].
+  replace (nth (S c) xs 0 - nth c xs 0 =? 0) with false by lia.
+  rewrite interp_k_eq by assumption.
+  unfold ival in H4, H5.
+  replace (nth c ys 0 + rdiv ((x0 - nth c xs 0) * (nth (S c) ys 0 - nth c ys 0)) (nth (S c) xs 0 - nth c xs 0) - nth c ys 0)
+    with (rdiv ((x0 - nth c xs 0) * (nth (S c) ys 0 - nth c ys 0)) (nth (S c) xs 0 - nth c xs 0)) in H4 by ring.
+  rewrite H4, H5. reflexivity.
+Qed.
+
+(* within half a unit of the exact rational value, whatever the segment *)
+Lemma interp_at_half : forall xs ys c x0 v,
+  interp_at xs ys c x0 = Ok v ->
+  (Qabs (inject_Z v - exact_at xs ys c x0) <= 1 # 2)%Q.
+Proof.
+  intros xs ys c x0 v H. apply interp_at_inv in H. destruct H as [_ ->].
+  unfold exact_at, interp_k. cbv zeta.
+  set (E := (inject_Z (x0 - nth c xs 0%Z) * (inject_Z (nth (S c) ys 0%Z - nth c ys 0%Z) / inject_Z (nth (S c) xs 0%Z - nth c xs 0%Z)))%Q).
+  assert (Heq : (inject_Z (nth c ys 0%Z + Qround_haz E) - (inject_Z (nth c ys 0%Z) + E) == inject_Z (Qround_haz E) - E)%Q).
+  { rewrite inject_Z_plus. ring. }
+  rewrite Heq. apply Qround_haz_half.
+Qed.
+
+
+Lemma interp_seg : forall j ph xs ys x0 c,
+  sorted_lt xs -> (2 <= length xs)%nat -> (length xs < ph)%nat ->
+  seg_ok xs x0 c -> interp j ph xs ys x0 = interp_at xs ys c x0.
+Proof. intros j ph xs ys x0 c Hsx Hlen2 Hph Hc. unfold interp. rewrite (search_eq_seg j ph xs x0 c Hsx Hlen2 Hph Hc). reflexivity. Qed.
+
+Lemma interp_has_seg : forall j ph xs ys x0,
+  sorted_lt xs -> (2 <= length xs)%nat -> (length xs < ph)%nat ->
+  exists c, seg_ok xs x0 c /\ interp j ph xs ys x0 = interp_at xs ys c x0.
+Proof.
+  intros j ph xs ys x0 Hsx Hlen2 Hph. destruct (search_seg_ok j ph xs x0 Hsx Hlen2 Hph) as [c [Hc Hs]].
+  exists c. split; [assumption|]. unfold interp. rewrite Hc. reflexivity.
+Qed.
+
+Lemma seg_ds_pos : forall xs x0 c, sorted_lt xs -> seg_ok xs x0 c -> 0 < nth (S c) xs 0 - nth c xs 0.
+Proof. intros xs x0 c Hsx [H _]. pose proof (Hsx c (S c) ltac:(lia)). lia. Qed.
+
+Lemma seg_dt_nonneg : forall xs ys x0 c, sorted_le ys -> length ys = length xs -> seg_ok xs x0 c ->
+  0 <= nth (S c) ys 0 - nth c ys 0.
+Proof. intros xs ys x0 c Hsy Hly [H _]. pose proof (Hsy c (S c) ltac:(lia)). lia. Qed.
+
+(* lower / upper bounds of the value on a segment: only ds > 0 and dt >= 0 matter *)
+Lemma ival_ge_left : forall xs ys c x0,
+  0 < nth (S c) xs 0 - nth c xs 0 -> 0 <= nth (S c) ys 0 - nth c ys 0 ->
+  nth c xs 0 <= x0 -> nth c ys 0 <= ival xs ys c x0.
+Proof.
+  intros xs ys c x0 Hds Hdt Hq. unfold ival.
+  assert (0 <= rdiv ((x0 - nth c xs 0) * (nth (S c) ys 0 - nth c ys 0)) (nth (S c) xs 0 - nth c xs 0)).
+  { apply rdiv_nonneg; [assumption|]. apply Z.mul_nonneg_nonneg; lia. }
+  lia.
+Qed.
+
+Lemma ival_le_left : forall xs ys c x0,
+  0 < nth (S c) xs 0 - nth c xs 0 -> 0 <= nth (S c) ys 0 - nth c ys 0 ->
+  x0 <= nth c xs 0 -> ival xs ys c x0 <= nth c ys 0.
+Proof.
+  intros xs ys c x0 Hds Hdt Hq. unfold ival.
+  assert (rdiv ((x0 - nth c xs 0) * (nth (S c) ys 0 - nth c ys 0)) (nth (S c) xs 0 - nth c xs 0) <= 0).
+  { apply rdiv_nonpos; [assumption|]. apply Z.mul_nonpos_nonneg; lia. }
+  lia.
+Qed.
+
+Lemma ival_le_right : forall xs ys c x0,
+  0 < nth (S c) xs 0 - nth c xs 0 -> 0 <= nth (S c) ys 0 - nth c ys 0 ->
+  x0 <= nth (S c) xs 0 -> ival xs ys c x0 <= nth (S c) ys 0.
+Proof.
+  intros xs ys c x0 Hds Hdt Hq. unfold ival.
+  assert (rdiv ((x0 - nth c xs 0) * (nth (S c) ys 0 - nth c ys 0)) (nth (S c) xs 0 - nth c xs 0) <= nth (S c) ys 0 - nth c ys 0).
+  { apply rdiv_le; [assumption|]. rewrite (Z.mul_comm (nth (S c) ys 0 - nth c ys 0)).
+    apply Z.mul_le_mono_nonneg_r; lia. }
+  lia.
+Qed.
+
+Lemma ival_ge_right : forall xs ys c x0,
+  0 < nth (S c) xs 0 - nth c xs 0 -> 0 <= nth (S c) ys 0 - nth c ys 0 ->
+  nth (S c) xs 0 <= x0 -> nth (S c) ys 0 <= ival xs ys c x0.
+Proof.
+  intros xs ys c x0 Hds Hdt Hq. unfold ival.
+  assert (nth (S c) ys 0 - nth c ys 0 <= rdiv ((x0 - nth c xs 0) * (nth (S c) ys 0 - nth c ys 0)) (nth (S c) xs 0 - nth c xs 0)).
+  { apply rdiv_ge; [assumption|]. rewrite (Z.mul_comm (nth (S c) ys 0 - nth c ys 0)).
+    apply Z.mul_le_mono_nonneg_r; lia. }
+  lia.
+Qed.
+
+Lemma ival_mono_seg : forall xs ys c q1 q2,
+  0 < nth (S c) xs 0 - nth c xs 0 -> 0 <= nth (S c) ys 0 - nth c ys 0 ->
+  q1 <= q2 -> ival xs ys c q1 <= ival xs ys c q2.
+Proof.
+  intros xs ys c q1 q2 Hds Hdt Hq. unfold ival.
+  assert (rdiv ((q1 - nth c xs 0) * (nth (S c) ys 0 - nth c ys 0)) (nth (S c) xs 0 - nth c xs 0)
+          <= rdiv ((q2 - nth c xs 0) * (nth (S c) ys 0 - nth c ys 0)) (nth (S c) xs 0 - nth c xs 0)).
+  { apply rdiv_mono; [assumption|]. apply Z.mul_le_mono_nonneg_r; lia. }
+  lia.
+Qed.
+
+Lemma ival_left_anchor : forall xs ys c, 0 < nth (S c) xs 0 - nth c xs 0 -> ival xs ys c (nth c xs 0) = nth c ys 0.
+Proof.
+  intros xs ys c Hds. unfold ival. rewrite Z.sub_diag, Z.mul_0_l, rdiv_0 by assumption. lia.
+Qed.
+
+Lemma ival_right_anchor : forall xs ys c, 0 < nth (S c) xs 0 - nth c xs 0 -> ival xs ys c (nth (S c) xs 0) = nth (S c) ys 0.
+Proof.
+  intros xs ys c Hds. unfold ival.
+  rewrite (Z.mul_comm (nth (S c) xs 0 - nth c xs 0)), rdiv_exact by assumption. lia.
+Qed.
+
+(* segments are ordered like the queries *)
+Lemma seg_mono : forall xs q1 q2 c1 c2, q1 <= q2 -> seg_ok xs q1 c1 -> seg_ok xs q2 c2 -> (c1 <= c2)%nat.
+Proof.
+  intros xs q1 q2 c1 c2 Hq [A1 [A2 A3]] [B1 [B2 B3]].
+  destruct (Nat.le_gt_cases c1 c2) as [H|H]; [assumption|exfalso].
+  pose proof (A2 c1 ltac:(lia)). pose proof (B3 c1 ltac:(lia) ltac:(lia)). lia.
+Qed.
+
+(* the standing hypotheses of the generic theorems *)
+Definition gen_ok (ph : nat) (xs ys : list Z) : Prop :=
+  sorted_lt xs /\ sorted_le ys /\ length ys = length xs /\ (2 <= length xs)%nat /\ (length xs < ph)%nat.
+
+Theorem interp_monotone : forall j ph xs ys q1 q2 v1 v2, gen_ok ph xs ys ->
+  interp j ph xs ys q1 = Ok v1 -> interp j ph xs ys q2 = Ok v2 -> q1 <= q2 -> v1 <= v2.
+Proof.
+  intros j ph xs ys q1 q2 v1 v2 [Hsx [Hsy [Hly [Hlen2 Hph]]]] H1 H2 Hq.
+  destruct (interp_has_seg j ph xs ys q1 Hsx Hlen2 Hph) as [c1 [Hc1 E1]].
+  destruct (interp_has_seg j ph xs ys q2 Hsx Hlen2 Hph) as [c2 [Hc2 E2]].
+  rewrite E1 in H1. rewrite E2 in H2.
+  pose proof (seg_ds_pos xs q1 c1 Hsx Hc1) as D1. pose proof (seg_ds_pos xs q2 c2 Hsx Hc2) as D2.
+  pose proof (seg_dt_nonneg xs ys q1 c1 Hsy Hly Hc1) as T1. pose proof (seg_dt_nonneg xs ys q2 c2 Hsy Hly Hc2) as T2.
+  apply interp_at_inv_pos in H1; [|assumption].
+  apply interp_at_inv_pos in H2; [|assumption].
+  subst v1 v2.
+  pose proof (seg_mono xs q1 q2 c1 c2 Hq Hc1 Hc2) as Hc.
+  destruct (Nat.eq_dec c1 c2) as [->|Hne].
+  - apply ival_mono_seg; assumption.
+  - (* c1 < c2: v1 <= y[c1+1] <= y[c2] <= v2 *)
+    assert (Hlt : (c1 < c2)%nat) by lia.
+    destruct Hc1 as [A1 [A2 A3]]. destruct Hc2 as [B1 [B2 B3]].
+    pose proof (A3 (S c1) ltac:(lia) ltac:(lia)) as Hq1.
+    pose proof (B2 c2 ltac:(lia)) as Hq2.
+    pose proof (ival_le_right xs ys c1 q1 D1 T1 ltac:(lia)).
+    pose proof (ival_ge_left xs ys c2 q2 D2 T2 ltac:(lia)).
+    pose proof (Hsy (S c1) c2 ltac:(lia)). lia.
+Qed.
+
+(* between the two anchors of its segment nothing overflows *)
+Lemma interp_at_inside_ok : forall xs ys q c,
+  sorted_lt xs -> sorted_le ys -> length ys = length xs ->
+  all_in (2 ^ 62 - 1) xs -> all_in (2 ^ 62 - 1) ys ->
+  seg_ok xs q c -> nth c xs 0 <= q <= nth (S c) xs 0 ->
+  interp_at xs ys c q = Ok (ival xs ys c q).
+Proof.
+  intros xs ys q c Hsx Hsy Hly Hbx Hby Hc Hq. pose proof Hc as [C1 _].
+  pose proof (seg_ds_pos xs q c Hsx Hc). pose proof (seg_dt_nonneg xs ys q c Hsy Hly Hc).
+  pose proof (all_in_nth _ xs c Hbx ltac:(lia)). pose proof (all_in_nth _ xs (S c) Hbx ltac:(lia)).
+  pose proof (all_in_nth _ ys c Hby ltac:(lia)). pose proof (all_in_nth _ ys (S c) Hby ltac:(lia)).
+  pose proof (ival_ge_left xs ys c q ltac:(lia) ltac:(lia) ltac:(lia)).
+  pose proof (ival_le_right xs ys c q ltac:(lia) ltac:(lia) ltac:(lia)).
+  apply interp_at_ok; try assumption; apply in64_true; lia.
+Qed.
+
+Theorem interp_anchor : forall j ph xs ys i, gen_ok ph xs ys ->
+  all_in (2 ^ 62 - 1) xs -> all_in (2 ^ 62 - 1) ys ->
+  (i < length xs)%nat -> interp j ph xs ys (nth i xs 0) = Ok (nth i ys 0).
+Proof.
+  intros j ph xs ys i [Hsx [Hsy [Hly [Hlen2 Hph]]]] Hbx Hby Hi.
+  destruct (Nat.lt_ge_cases (i + 1) (length xs)) as [Hin|Hlast].
+  - assert (Hc : seg_ok xs (nth i xs 0) i).
+    { apply seg_ok_inside; [assumption|lia|]. pose proof (Hsx i (S i) ltac:(lia)). lia. }
+    rewrite (interp_seg j ph xs ys _ _ Hsx Hlen2 Hph Hc).
+    pose proof (Hsx i (S i) ltac:(lia)).
+    rewrite interp_at_inside_ok by (assumption || lia).
+    rewrite ival_left_anchor by lia. reflexivity.
+  - assert (Hi' : i = S (length xs - 2)) by lia.
+    assert (Hc : seg_ok xs (nth i xs 0) (length xs - 2)).
+    { replace i with (length xs - 1)%nat by lia. apply seg_ok_after; [assumption|lia|lia]. }
+    rewrite (interp_seg j ph xs ys _ _ Hsx Hlen2 Hph Hc).
+    pose proof (Hsx (length xs - 2)%nat (S (length xs - 2)) ltac:(lia)).
+    rewrite interp_at_inside_ok; try assumption; [|rewrite Hi'; lia].
+    rewrite Hi'. rewrite ival_right_anchor by lia. reflexivity.
+Qed.
+
+Theorem interp_linear_lemma : forall j ph xs ys i q, gen_ok ph xs ys ->
+  all_in (2 ^ 62 - 1) xs -> all_in (2 ^ 62 - 1) ys ->
+  (i + 1 < length xs)%nat -> nth i xs 0 <= q <= nth (S i) xs 0 ->
+  interp j ph xs ys q = Ok (ival xs ys i q).
+Proof.
+  intros j ph xs ys i q Hg Hbx Hby Hi Hq. pose proof Hg as [Hsx [Hsy [Hly [Hlen2 Hph]]]].
+  destruct (Z.eq_dec q (nth (S i) xs 0)) as [->|Hne].
+  - rewrite (interp_anchor j ph xs ys (S i) Hg Hbx Hby) by lia. pose proof (Hsx i (S i) ltac:(lia)).
+    rewrite ival_right_anchor by lia. reflexivity.
+  - assert (Hc : seg_ok xs q i) by (apply seg_ok_inside; [assumption|lia|lia]).
+    rewrite (interp_seg j ph xs ys _ _ Hsx Hlen2 Hph Hc). apply interp_at_inside_ok; try assumption; lia.
+Qed.
+
+(* ------------------------------------------------------------------ *)
+
+Lemma adj_sorted_lt : forall l, (forall i, (i + 1 < length l)%nat -> nth i l 0 < nth (S i) l 0) -> sorted_lt l.
+Proof.
+  intros l H i k. revert i. induction k as [|k IH]; intros i Hik; [lia|].
+  destruct (Nat.eq_dec i k) as [->|Hne].
+  - apply H. lia.
+  - pose proof (IH i ltac:(lia)). pose proof (H k ltac:(lia)). lia.
+Qed.
+
+(* at least one unit of y per unit of x on every segment (one time tick per sample) *)
+Definition slope_ge1 (xs ys : list Z) : Prop :=
+  forall i, (i + 1 < length xs)%nat -> nth (S i) xs 0 - nth i xs 0 <= nth (S i) ys 0 - nth i ys 0.
+
+Lemma round_trip_core : forall dk ds dt r m,
+  0 < ds -> ds <= dt ->
+  2 * r * ds - ds <= 2 * (dk * dt) <= 2 * r * ds + ds ->
+  2 * m * dt - dt <= 2 * (r * ds) <= 2 * m * dt + dt ->
+  -1 <= m - dk <= 1.
+Proof. intros dk ds dt r m Hds Hdt H1 H2. nia. Qed.
+
+
+Lemma slope_sorted : forall xs ys, sorted_lt xs -> length ys = length xs -> slope_ge1 xs ys -> sorted_lt ys.
+Proof.
+  intros xs ys Hsx Hly Hslope. apply adj_sorted_lt. intros i Hi. rewrite Hly in Hi.
+  pose proof (Hslope i Hi). pose proof (Hsx i (S i) ltac:(lia)). lia.
+Qed.
+
+Theorem interp_inverse : forall j j' ph xs ys q t q',
+  sorted_lt xs -> (2 <= length xs)%nat -> (length xs < ph)%nat -> length ys = length xs ->
+  slope_ge1 xs ys ->
+  interp j ph xs ys q = Ok t -> interp j' ph ys xs t = Ok q' -> -1 <= q' - q <= 1.
+Proof.
+  intros j j' ph xs ys q t q' Hsx Hlen2 Hph Hly Hslope H1 H2.
+  pose proof (slope_sorted xs ys Hsx Hly Hslope) as Hsy. pose proof (sorted_lt_le _ Hsy) as Hsy'.
+  destruct (interp_has_seg j ph xs ys q Hsx Hlen2 Hph) as [c1 [Hc1 E1]].
+  destruct (interp_has_seg j' ph ys xs t Hsy ltac:(lia) ltac:(lia)) as [c2 [Hc2 E2]].
+  rewrite E1 in H1. rewrite E2 in H2.
+  pose proof (seg_ds_pos xs q c1 Hsx Hc1) as Hds1.
+  pose proof (seg_ds_pos ys t c2 Hsy Hc2) as Hds2.
+  pose proof (seg_dt_nonneg xs ys q c1 Hsy' Hly Hc1) as Hdt1.
+  apply interp_at_inv_pos in H1; [|assumption].
+  apply interp_at_inv_pos in H2; [|assumption].
+  pose proof Hc1 as [A1 [A2 A3]]. pose proof Hc2 as [B1 [B2 B3]]. rewrite Hly in B1.
+  pose proof (Hslope c1 ltac:(lia)) as Hsl1.
+  (* t lies in the closed time range of segment c1 (open-ended at the outer segments) *)
+  assert (Ta : (0 < c1)%nat -> nth c1 ys 0 <= t).
+  { intros Hc. subst t. apply ival_ge_left; try assumption. apply A2. lia. }
+  assert (Tb : (c1 + 2 < length xs)%nat -> t <= nth (S c1) ys 0).
+  { intros Hc. subst t. apply ival_le_right; try assumption.
+    pose proof (A3 (S c1) ltac:(lia) ltac:(lia)). lia. }
+  assert (Hcc : c2 = c1 \/ (c2 = S c1 /\ t = nth (S c1) ys 0)).
+  { destruct (Nat.lt_trichotomy c2 c1) as [Hlt|[Heq|Hgt]].
+    - exfalso. pose proof (Ta ltac:(lia)). pose proof (B3 c1 ltac:(lia) ltac:(lia)). lia.
+    - left; assumption.
+    - right. pose proof (Tb ltac:(lia)) as Tb'. pose proof (B2 c2 ltac:(lia)) as Hb.
+      destruct (Nat.eq_dec c2 (S c1)) as [->|Hne]; [split; [reflexivity|lia]|].
+      exfalso. pose proof (Hsy (S c1) c2 ltac:(lia)). lia. }
+  destruct Hcc as [->|[-> Ht]].
+  - (* same segment: round twice *)
+    unfold ival in H1, H2.
+    set (dk := q - nth c1 xs 0) in *. set (ds := nth (S c1) xs 0 - nth c1 xs 0) in *.
+    set (dt := nth (S c1) ys 0 - nth c1 ys 0) in *.
+    set (r := rdiv (dk * dt) ds) in *.
+    assert (Htr : t - nth c1 ys 0 = r) by lia.
+    rewrite Htr in H2.
+    set (m := rdiv (r * ds) dt) in *.
+    pose proof (rdiv_half (dk * dt) ds Hds1) as R1. fold r in R1.
+    pose proof (rdiv_half (r * ds) dt ltac:(lia)) as R2. fold m in R2.
+    pose proof (round_trip_core dk ds dt r m Hds1 Hsl1 R1 R2). lia.
+  - (* t is exactly the next anchor time *)
+    rewrite Ht in H2. rewrite (ival_left_anchor ys xs (S c1) Hds2) in H2. subst q'.
+    unfold ival in H1.
+    set (dk := q - nth c1 xs 0) in *. set (ds := nth (S c1) xs 0 - nth c1 xs 0) in *.
+    set (dt := nth (S c1) ys 0 - nth c1 ys 0) in *.
+    assert (Hr : rdiv (dk * dt) ds = dt) by lia.
+    pose proof (rdiv_half (dk * dt) ds Hds1) as R1. rewrite Hr in R1.
+    assert (dk = ds) by nia.
+    lia.
+Qed.
+
+(* ------------------------------------------------------------------ *)
+
+(* ---------- single entry ---------- *)
+Lemma time_second_eq : TMAP_TIME_SECOND = 2 ^ 30.
+Proof. reflexivity. Qed.
+
+Lemma rate_positive_iff : forall r, rate_positive r = true <-> (0 < r)%Q.
+Proof. intros [n d]. unfold rate_positive, Qlt. cbn [Qnum Qden]. lia. Qed.
+
+Lemma single_k1 : forall (r : Q) d, rate_positive r = true ->
+  Qtrunc ((inject_Z d / r) * inject_Z TMAP_TIME_SECOND)%Q = Z.quot (d * Zpos (Qden r) * 2 ^ 30) (Qnum r).
+Proof.
+  intros [n p] d Hr. unfold rate_positive in Hr. cbn [Qnum Qden] in *.
+  destruct n as [|n|n]; try discriminate.
+  change TMAP_TIME_SECOND with 1073741824.
+  unfold Qdiv, Qinv, Qmult, inject_Z, Qtrunc. cbn [Qnum Qden].
+  rewrite Pos.mul_1_r. reflexivity.
+Qed.
+
+Lemma single_k2 : forall (r : Q) d,
+  Qtrunc ((inject_Z d * (1 / inject_Z TMAP_TIME_SECOND)) * r)%Q = Z.quot (d * Qnum r) (2 ^ 30 * Zpos (Qden r)).
+Proof.
+  intros [n p] d. change TMAP_TIME_SECOND with 1073741824.
+  unfold Qdiv, Qinv, Qmult, inject_Z, Qtrunc. cbn [Qnum Qden].
+  rewrite Z.mul_1_r. reflexivity.
+Qed.
+
+Lemma quot_round_trip : forall d rn A, 0 < rn -> rn <= A ->
+  -1 <= Z.quot (Z.quot (d * A) rn * rn) A - d <= 1.
+Proof.
+  intros d rn A Hrn HA.
+  set (P := d * A). set (k1 := Z.quot P rn).
+  pose proof (Z.quot_rem' P rn) as E1. fold k1 in E1.
+  pose proof (Z.rem_bound_abs P rn ltac:(lia)) as B1.
+  set (M := k1 * rn). set (k2 := Z.quot M A).
+  pose proof (Z.quot_rem' M A) as E2. fold k2 in E2.
+  pose proof (Z.rem_bound_abs M A ltac:(lia)) as B2.
+  assert (A * (d - k2) = Z.rem P rn + Z.rem M A) by (unfold P, M in *; lia).
+  nia.
+Qed.
+
+(* ------------------------------------------------------------------ *)
+
+Lemma ids_length : forall t, length (ids t) = length (entries t).
+Proof. intros. apply map_length. Qed.
+Lemma times_length : forall t, length (times t) = length (entries t).
+Proof. intros. apply map_length. Qed.
+
+Lemma s2t_multi : forall j t q, (2 <= length (entries t))%nat ->
+  tmap_sample_id_to_timestamp j t q = qres_of (interp j (phys t) (ids t) (times t) q).
+Proof.
+  intros j t q H. unfold tmap_sample_id_to_timestamp.
+  destruct (entries t) as [|[s0 u0] [|e2 l]] eqn:E; cbn [length] in H; try lia. reflexivity.
+Qed.
+
+Lemma t2s_multi : forall j t q, (2 <= length (entries t))%nat ->
+  tmap_timestamp_to_sample_id j t q = qres_of (interp j (phys t) (times t) (ids t) q).
+Proof.
+  intros j t q H. unfold tmap_timestamp_to_sample_id.
+  destruct (entries t) as [|[s0 u0] [|e2 l]] eqn:E; cbn [length] in H; try lia. reflexivity.
+Qed.
+
+Lemma s2t_single : forall j t q s0 u0, entries t = [(s0, u0)] ->
+  tmap_sample_id_to_timestamp j t q =
+  if rate_positive (rate t) then qres_of (single_id_to_time (rate t) s0 u0 q) else QErr TMAP_ERROR_UNAVAILABLE.
+Proof. intros j t q s0 u0 E. unfold tmap_sample_id_to_timestamp. rewrite E. reflexivity. Qed.
+
+Lemma t2s_single : forall j t q s0 u0, entries t = [(s0, u0)] ->
+  tmap_timestamp_to_sample_id j t q =
+  if rate_positive (rate t) then qres_of (single_time_to_id (rate t) s0 u0 q) else QErr TMAP_ERROR_UNAVAILABLE.
+Proof. intros j t q s0 u0 E. unfold tmap_timestamp_to_sample_id. rewrite E. reflexivity. Qed.
+
+Lemma qres_of_val : forall r v, qres_of r = QVal v -> r = Ok v.
+Proof. intros [a|f] v H; cbn in H; inversion H; reflexivity. Qed.
+
+Lemma entries_cases : forall t,
+  entries t = [] \/ (exists s0 u0, entries t = [(s0, u0)]) \/ (2 <= length (entries t))%nat.
+Proof.
+  intros t. destruct (entries t) as [|[s0 u0] [|e2 l]]; [left; reflexivity|right; left; eauto|right; right; cbn; lia].
+Qed.
+
+Lemma single_id_to_time_inv : forall r s0 u0 q v, rate_positive r = true ->
+  single_id_to_time r s0 u0 q = Ok v -> v = u0 + Z.quot ((q - s0) * Zpos (Qden r) * 2 ^ 30) (Qnum r).
+Proof.
+  intros r s0 u0 q v Hr. unfold single_id_to_time.
+  destruct (negb _); [discriminate|]. destruct (negb _); [discriminate|].
+  intros H. inversion H. rewrite single_k1 by assumption. reflexivity.
+Qed.
+
+Lemma single_time_to_id_inv : forall r s0 u0 q v,
+  single_time_to_id r s0 u0 q = Ok v -> v = s0 + Z.quot ((q - u0) * Qnum r) (2 ^ 30 * Zpos (Qden r)).
+Proof.
+  intros r s0 u0 q v. unfold single_time_to_id.
+  destruct (negb _); [discriminate|]. destruct (negb _); [discriminate|].
+  intros H. inversion H. rewrite single_k2. reflexivity.
+Qed.
+
+(* ================= junk independence, no over-read ================= *)
+Theorem tmap_junk_independent : forall j j' t q, (length (entries t) < phys t)%nat ->
+  tmap_sample_id_to_timestamp j t q = tmap_sample_id_to_timestamp j' t q /\
+  tmap_timestamp_to_sample_id j t q = tmap_timestamp_to_sample_id j' t q.
+Proof.
+  intros j j' t q Hph.
+  destruct (entries_cases t) as [E|[[s0 [u0 E]]|E]].
+  - unfold tmap_sample_id_to_timestamp, tmap_timestamp_to_sample_id. rewrite E. split; reflexivity.
+  - rewrite !(s2t_single _ t q s0 u0 E), !(t2s_single _ t q s0 u0 E). split; reflexivity.
+  - rewrite !s2t_multi, !t2s_multi by assumption. unfold interp.
+    rewrite (search_junk_independent_lemma j j' (phys t) (ids t) q) by (rewrite ids_length; assumption).
+    rewrite (search_junk_independent_lemma j j' (phys t) (times t) q) by (rewrite times_length; assumption).
+    split; reflexivity.
+Qed.
+
+Lemma interp_not_oob : forall j ph xs ys q, (length xs < ph)%nat -> interp j ph xs ys q <> Fault OOB_read.
+Proof.
+  intros j ph xs ys q Hph. unfold interp.
+  destruct (search_no_oob_lemma j ph xs q Hph) as [c [-> _]].
+  unfold interp_at. destruct (negb _); [discriminate|]. destruct (_ =? 0); [discriminate|].
+  destruct (negb _); discriminate.
+Qed.
+
+Theorem tmap_no_oob : forall j t q, (length (entries t) < phys t)%nat ->
+  tmap_sample_id_to_timestamp j t q <> QFault OOB_read /\
+  tmap_timestamp_to_sample_id j t q <> QFault OOB_read.
+Proof.
+  intros j t q Hph.
+  destruct (entries_cases t) as [E|[[s0 [u0 E]]|E]].
+  - unfold tmap_sample_id_to_timestamp, tmap_timestamp_to_sample_id. rewrite E. split; discriminate.
+  - rewrite (s2t_single _ t q s0 u0 E), (t2s_single _ t q s0 u0 E).
+    unfold single_id_to_time, single_time_to_id.
+    split; destruct (rate_positive _); try discriminate;
+      destruct (negb _); try discriminate; destruct (negb _); discriminate.
+  - rewrite s2t_multi, t2s_multi by assumption. split.
+    + pose proof (interp_not_oob j (phys t) (ids t) (times t) q ltac:(rewrite ids_length; assumption)) as H.
+      destruct (interp _ _ _ _ _) as [a|f]; cbn; [discriminate|]. intros Hc. inversion Hc. subst f. apply H. reflexivity.
+    + pose proof (interp_not_oob j (phys t) (times t) (ids t) q ltac:(rewrite times_length; assumption)) as H.
+      destruct (interp _ _ _ _ _) as [a|f]; cbn; [discriminate|]. intros Hc. inversion Hc. subst f. apply H. reflexivity.
+Qed.
+
+(* ================= the repaired code returns what the present code returns ================= *)
+Lemma interp_at_fixed_eq : forall xs ys c q, nth (S c) xs 0 - nth c xs 0 <> 0 ->
+  interp_at_fixed xs ys c q = interp_at xs ys c q.
+Proof.
+  intros xs ys c q H. unfold interp_at_fixed, interp_at.
+  destruct (negb _); [reflexivity|].
+  replace (nth (S c) xs 0 - nth c xs 0 =? 0) with false by lia. reflexivity.
+Qed.
+
+Lemma interp_fixed_eq : forall j ph xs ys q,
+  sorted_lt xs -> (2 <= length xs)%nat -> (length xs < ph)%nat ->
+  interp_fixed xs ys q = interp j ph xs ys q.
+Proof.
+  intros j ph xs ys q Hs Hl Hph. unfold interp_fixed, interp.
+  rewrite (search_fixed_eq j ph xs q Hs Hl Hph).
+  destruct (search_seg_ok j ph xs q Hs Hl Hph) as [c [-> [Hc _]]].
+  apply interp_at_fixed_eq. pose proof (Hs c (S c) ltac:(lia)). lia.
+Qed.
+
+Theorem tmap_fixed_eq : forall j t q,
+  sorted_lt (ids t) -> (length (entries t) < phys t)%nat ->
+  tmap_sample_id_to_timestamp_fixed t q = tmap_sample_id_to_timestamp j t q /\
+  (sorted_lt (times t) -> tmap_timestamp_to_sample_id_fixed t q = tmap_timestamp_to_sample_id j t q).
+Proof.
+  intros j t q Hs Hph.
+  assert (P1 : (length (ids t) < phys t)%nat) by (rewrite ids_length; assumption).
+  assert (P2 : (length (times t) < phys t)%nat) by (rewrite times_length; assumption).
+  pose proof (ids_length t) as L1. pose proof (times_length t) as L2.
+  unfold tmap_sample_id_to_timestamp_fixed, tmap_timestamp_to_sample_id_fixed,
+         tmap_sample_id_to_timestamp, tmap_timestamp_to_sample_id.
+  destruct (entries t) as [|[s0 u0] [|e2 l]] eqn:E; try (split; reflexivity).
+  cbn [length] in L1, L2.
+  split.
+  - rewrite (interp_fixed_eq j (phys t) (ids t) (times t) q Hs ltac:(lia) P1). reflexivity.
+  - intros Hst.
+    rewrite (interp_fixed_eq j (phys t) (times t) (ids t) q Hst ltac:(lia) P2). reflexivity.
+Qed.
+
+(* at capacity (length = physical cells) the present code faults for queries beyond the last
+   anchor; the repaired code returns what the unchecked build computes there *)
+Theorem tmap_fixed_eq_unchecked : forall j t q,
+  sorted_lt (ids t) ->
+  tmap_sample_id_to_timestamp_fixed t q = tmap_sample_id_to_timestamp j (tmap_unchecked t) q /\
+  tmap_sample_id_to_timestamp_fixed t q <> QFault OOB_read.
+Proof.
+  intros j t q Hs.
+  assert (H : tmap_sample_id_to_timestamp_fixed t q = tmap_sample_id_to_timestamp j (tmap_unchecked t) q).
+  { change (tmap_sample_id_to_timestamp_fixed t q) with (tmap_sample_id_to_timestamp_fixed (tmap_unchecked t) q).
+    apply tmap_fixed_eq; [exact Hs|]. unfold tmap_unchecked. cbn [entries phys]. lia. }
+  split; [exact H|]. rewrite H.
+  apply tmap_no_oob. unfold tmap_unchecked. cbn [entries phys]. lia.
+Qed.
+
+(* the over-read, exact condition *)
+Theorem tmap_oob_iff : forall j t q, sorted_lt (ids t) -> (2 <= length (entries t))%nat ->
+  (phys t <= length (entries t))%nat ->
+  (tmap_sample_id_to_timestamp j t q = QFault OOB_read <-> nth (length (entries t) - 1) (ids t) 0 < q).
+Proof.
+  intros j t q Hs Hl Hph. rewrite s2t_multi by assumption.
+  pose proof (search_oob_iff_lemma j (phys t) (ids t) q Hs ltac:(rewrite ids_length; assumption) ltac:(rewrite ids_length; assumption)) as H.
+  rewrite ids_length in H. rewrite <- H. unfold interp.
+  destruct (search j (phys t) (ids t) q) as [c|f] eqn:E.
+  - split; [|discriminate]. unfold interp_at.
+    destruct (negb _); [discriminate|]. destruct (_ =? 0); [discriminate|]. destruct (negb _); discriminate.
+  - cbn. split; intros H'; inversion H'; reflexivity.
+Qed.
+
+(* ------------------------------------------------------------------ *)
+
+Lemma In_entries_nth : forall t s u, In (s, u) (entries t) ->
+  exists i, (i < length (entries t))%nat /\ nth i (ids t) 0 = s /\ nth i (times t) 0 = u.
+Proof.
+  intros t s u H. destruct (In_nth _ _ (0, 0) H) as [i [Hi E]].
+  exists i. split; [assumption|]. unfold ids, times.
+  change 0 with (fst (0, 0)) at 1. rewrite map_nth, E. cbn [fst].
+  change 0 with (snd (0, 0)). rewrite map_nth, E. split; reflexivity.
+Qed.
+
+Lemma gen_ok_s2t : forall t, sorted_lt (ids t) -> sorted_le (times t) ->
+  (2 <= length (entries t))%nat -> (length (entries t) < phys t)%nat ->
+  gen_ok (phys t) (ids t) (times t).
+Proof. intros t H1 H2 H3 H4. unfold gen_ok. rewrite ids_length, times_length. auto. Qed.
+
+Lemma gen_ok_t2s : forall t, sorted_lt (times t) -> sorted_lt (ids t) ->
+  (2 <= length (entries t))%nat -> (length (entries t) < phys t)%nat ->
+  gen_ok (phys t) (times t) (ids t).
+Proof. intros t H1 H2 H3 H4. unfold gen_ok. rewrite ids_length, times_length. auto using sorted_lt_le. Qed.
+
+(* ================= anchors ================= *)
+Theorem tmap_anchor_exact : forall j t s u,
+  sorted_lt (ids t) -> sorted_le (times t) -> (length (entries t) < phys t)%nat ->
+  all_in (2 ^ 62 - 1) (ids t) -> all_in (2 ^ 62 - 1) (times t) -> (0 < rate t)%Q ->
+  In (s, u) (entries t) ->
+  tmap_sample_id_to_timestamp j t s = QVal u /\
+  (sorted_lt (times t) -> tmap_timestamp_to_sample_id j t u = QVal s).
+Proof.
+  intros j t s u Hsx Hsy Hph Hbx Hby Hr Hin.
+  destruct (In_entries_nth t s u Hin) as [i [Hi [Es Eu]]].
+  apply rate_positive_iff in Hr.
+  destruct (entries_cases t) as [E|[[s0 [u0 E]]|E]].
+  - rewrite E in Hin. destruct Hin.
+  - rewrite (s2t_single _ t s s0 u0 E), (t2s_single _ t u s0 u0 E), Hr.
+    rewrite E in Hin. destruct Hin as [Hin|[]]. inversion Hin. subst s0 u0.
+    pose proof (all_in_nth _ _ 0%nat Hbx ltac:(rewrite ids_length, E; cbn; lia)) as B1.
+    pose proof (all_in_nth _ _ 0%nat Hby ltac:(rewrite times_length, E; cbn; lia)) as B2.
+    unfold ids, times in B1, B2. rewrite E in B1, B2. cbn [map nth fst snd] in B1, B2.
+    unfold single_id_to_time, single_time_to_id.
+    rewrite !Z.sub_diag, single_k1, single_k2 by assumption.
+    rewrite !Z.mul_0_l, !Z.quot_0_l.
+    2:{ lia. }
+    2:{ unfold rate_positive in Hr. lia. }
+    cbn [in64 negb andb]. rewrite !Z.add_0_r.
+    replace (in64 0) with true by reflexivity. cbn [andb negb].
+    replace (in64 u) with true by (symmetry; apply in64_true; lia).
+    replace (in64 s) with true by (symmetry; apply in64_true; lia).
+    cbn. split; reflexivity.
+  - rewrite s2t_multi, t2s_multi by assumption. split.
+    + rewrite <- Es, <- Eu.
+      rewrite (interp_anchor j (phys t) (ids t) (times t) i (gen_ok_s2t t Hsx Hsy E Hph) Hbx Hby) by (rewrite ids_length; assumption).
+      reflexivity.
+    + intros Hst. rewrite <- Es, <- Eu.
+      rewrite (interp_anchor j (phys t) (times t) (ids t) i (gen_ok_t2s t Hst Hsx E Hph) Hby Hbx) by (rewrite times_length; assumption).
+      reflexivity.
+Qed.
+
+(* ================= monotone ================= *)
+Theorem tmap_monotone : forall j t q1 q2 v1 v2,
+  sorted_lt (ids t) -> sorted_le (times t) -> (length (entries t) < phys t)%nat ->
+  tmap_sample_id_to_timestamp j t q1 = QVal v1 -> tmap_sample_id_to_timestamp j t q2 = QVal v2 ->
+  q1 <= q2 -> v1 <= v2.
+Proof.
+  intros j t q1 q2 v1 v2 Hsx Hsy Hph H1 H2 Hq.
+  destruct (entries_cases t) as [E|[[s0 [u0 E]]|E]].
+  - unfold tmap_sample_id_to_timestamp in H1. rewrite E in H1. discriminate.
+  - rewrite (s2t_single _ t q1 s0 u0 E) in H1. rewrite (s2t_single _ t q2 s0 u0 E) in H2.
+    destruct (rate_positive (rate t)) eqn:Hr; [|discriminate].
+    apply qres_of_val in H1. apply qres_of_val in H2.
+    apply single_id_to_time_inv in H1; [|assumption]. apply single_id_to_time_inv in H2; [|assumption].
+    subst v1 v2. unfold rate_positive in Hr.
+    assert (Z.quot ((q1 - s0) * Zpos (Qden (rate t)) * 2 ^ 30) (Qnum (rate t)) <=
+            Z.quot ((q2 - s0) * Zpos (Qden (rate t)) * 2 ^ 30) (Qnum (rate t))).
+    { apply Z.quot_le_mono; [lia|]. apply Z.mul_le_mono_nonneg_r; [lia|].
+      apply Z.mul_le_mono_nonneg_r; lia. }
+    lia.
+  - rewrite s2t_multi in H1 by assumption. rewrite s2t_multi in H2 by assumption.
+    apply qres_of_val in H1. apply qres_of_val in H2.
+    exact (interp_monotone j (phys t) (ids t) (times t) q1 q2 v1 v2 (gen_ok_s2t t Hsx Hsy E Hph) H1 H2 Hq).
+Qed.
+
+Theorem tmap_monotone_rev : forall j t q1 q2 v1 v2,
+  sorted_lt (ids t) -> sorted_lt (times t) -> (length (entries t) < phys t)%nat ->
+  tmap_timestamp_to_sample_id j t q1 = QVal v1 -> tmap_timestamp_to_sample_id j t q2 = QVal v2 ->
+  q1 <= q2 -> v1 <= v2.
+Proof.
+  intros j t q1 q2 v1 v2 Hsx Hsy Hph H1 H2 Hq.
+  destruct (entries_cases t) as [E|[[s0 [u0 E]]|E]].
+  - unfold tmap_timestamp_to_sample_id in H1. rewrite E in H1. discriminate.
+  - rewrite (t2s_single _ t q1 s0 u0 E) in H1. rewrite (t2s_single _ t q2 s0 u0 E) in H2.
+    destruct (rate_positive (rate t)) eqn:Hr; [|discriminate].
+    apply qres_of_val in H1. apply qres_of_val in H2.
+    apply single_time_to_id_inv in H1. apply single_time_to_id_inv in H2.
+    subst v1 v2. unfold rate_positive in Hr.
+    assert (Z.quot ((q1 - u0) * Qnum (rate t)) (2 ^ 30 * Zpos (Qden (rate t))) <=
+            Z.quot ((q2 - u0) * Qnum (rate t)) (2 ^ 30 * Zpos (Qden (rate t)))).
+    { apply Z.quot_le_mono; [lia|]. apply Z.mul_le_mono_nonneg_r; lia. }
+    lia.
+  - rewrite t2s_multi in H1 by assumption. rewrite t2s_multi in H2 by assumption.
+    apply qres_of_val in H1. apply qres_of_val in H2.
+    exact (interp_monotone j (phys t) (times t) (ids t) q1 q2 v1 v2 (gen_ok_t2s t Hsy Hsx E Hph) H1 H2 Hq).
+Qed.
+
+(* ------------------------------------------------------------------ *)
+
+(* the rounded value written with the C's own expression, and its distance to the exact one *)
+Lemma ival_as_Q : forall xs ys c q, 0 < nth (S c) xs 0%Z - nth c xs 0%Z ->
+  ival xs ys c q = nth c ys 0%Z + Qround_haz (inject_Z (q - nth c xs 0%Z) * (inject_Z (nth (S c) ys 0%Z - nth c ys 0%Z) / inject_Z (nth (S c) xs 0%Z - nth c xs 0%Z)))%Q.
+Proof. intros xs ys c q H. unfold ival. rewrite <- interp_k_eq by assumption. reflexivity. Qed.
+
+Lemma half_Q : forall y (E : Q), (Qabs (inject_Z (y + Qround_haz E) - (inject_Z y + E)) <= 1 # 2)%Q.
+Proof.
+  intros y E.
+  assert (Heq : (inject_Z (y + Qround_haz E) - (inject_Z y + E) == inject_Z (Qround_haz E) - E)%Q).
+  { rewrite inject_Z_plus. ring. }
+  rewrite Heq. apply Qround_haz_half.
+Qed.
+
+Lemma lt1_Q : forall y (E : Q), (Qabs (inject_Z (y + Qtrunc E) - (inject_Z y + E)) < 1)%Q.
+Proof.
+  intros y E.
+  assert (Heq : (inject_Z (y + Qtrunc E) - (inject_Z y + E) == inject_Z (Qtrunc E) - E)%Q).
+  { rewrite inject_Z_plus. ring. }
+  rewrite Heq. apply Qtrunc_lt1.
+Qed.
+
+(* ================= linear interpolation between neighbours ================= *)
+Theorem tmap_interp_linear : forall j t i q,
+  sorted_lt (ids t) -> sorted_le (times t) -> (length (entries t) < phys t)%nat ->
+  all_in (2 ^ 62 - 1) (ids t) -> all_in (2 ^ 62 - 1) (times t) ->
+  (i + 1 < length (entries t))%nat -> nth i (ids t) 0%Z <= q <= nth (S i) (ids t) 0%Z ->
+  exists v, tmap_sample_id_to_timestamp j t q = QVal v /\
+    v = nth i (times t) 0%Z + Qround_haz (inject_Z (q - nth i (ids t) 0%Z) * (inject_Z (nth (S i) (times t) 0%Z - nth i (times t) 0%Z) / inject_Z (nth (S i) (ids t) 0%Z - nth i (ids t) 0%Z)))%Q /\
+    (Qabs (inject_Z v - (inject_Z (nth i (times t) 0%Z) + inject_Z (q - nth i (ids t) 0%Z) * (inject_Z (nth (S i) (times t) 0%Z - nth i (times t) 0%Z) / inject_Z (nth (S i) (ids t) 0%Z - nth i (ids t) 0%Z)))) <= 1 # 2)%Q /\
+    nth i (times t) 0%Z <= v <= nth (S i) (times t) 0%Z.
+Proof.
+  intros j t i q Hsx Hsy Hph Hbx Hby Hi Hq.
+  assert (E : (2 <= length (entries t))%nat) by lia.
+  pose proof (Hsx i (S i) ltac:(rewrite ids_length; lia)) as Hds.
+  pose proof (Hsy i (S i) ltac:(rewrite times_length; lia)) as Hdt.
+  exists (ival (ids t) (times t) i q). rewrite s2t_multi by assumption.
+  rewrite (interp_linear_lemma j (phys t) (ids t) (times t) i q (gen_ok_s2t t Hsx Hsy E Hph) Hbx Hby) by (rewrite ?ids_length; assumption).
+  split; [reflexivity|]. rewrite ival_as_Q by lia. split; [reflexivity|]. split; [apply half_Q|].
+  rewrite <- ival_as_Q by lia. split.
+  - apply ival_ge_left; lia.
+  - apply ival_le_right; lia.
+Qed.
+
+(* ================= every query: the segment and the distance to the exact value ================= *)
+Theorem tmap_within_one_tick : forall j t q v,
+  sorted_lt (ids t) -> (length (entries t) < phys t)%nat ->
+  tmap_sample_id_to_timestamp j t q = QVal v ->
+  (exists s0 u0, entries t = [(s0, u0)] /\ (0 < rate t)%Q /\
+     v = u0 + Qtrunc ((inject_Z (q - s0) / rate t) * inject_Z (2 ^ 30))%Q /\
+     (Qabs (inject_Z v - (inject_Z u0 + (inject_Z (q - s0) / rate t) * inject_Z (2 ^ 30))) < 1)%Q) \/
+  (exists c, seg_ok (ids t) q c /\
+     v = nth c (times t) 0%Z + Qround_haz (inject_Z (q - nth c (ids t) 0%Z) * (inject_Z (nth (S c) (times t) 0%Z - nth c (times t) 0%Z) / inject_Z (nth (S c) (ids t) 0%Z - nth c (ids t) 0%Z)))%Q /\
+     (Qabs (inject_Z v - (inject_Z (nth c (times t) 0%Z) + inject_Z (q - nth c (ids t) 0%Z) * (inject_Z (nth (S c) (times t) 0%Z - nth c (times t) 0%Z) / inject_Z (nth (S c) (ids t) 0%Z - nth c (ids t) 0%Z)))) <= 1 # 2)%Q).
+Proof.
+  intros j t q v Hsx Hph H.
+  destruct (entries_cases t) as [E|[[s0 [u0 E]]|E]].
+  - unfold tmap_sample_id_to_timestamp in H. rewrite E in H. discriminate.
+  - left. exists s0, u0. split; [assumption|].
+    rewrite (s2t_single _ t q s0 u0 E) in H.
+    destruct (rate_positive (rate t)) eqn:Hr; [|discriminate].
+    split; [apply rate_positive_iff; assumption|].
+    apply qres_of_val in H. unfold single_id_to_time in H.
+    destruct (negb _); [discriminate|]. destruct (negb _); [discriminate|]. inversion H.
+    change TMAP_TIME_SECOND with (2 ^ 30). split; [reflexivity|apply lt1_Q].
+  - right. rewrite s2t_multi in H by assumption. apply qres_of_val in H.
+    destruct (interp_has_seg j (phys t) (ids t) (times t) q Hsx ltac:(rewrite ids_length; assumption) ltac:(rewrite ids_length; assumption)) as [c [Hc Ec]].
+    exists c. split; [assumption|]. rewrite Ec in H.
+    apply interp_at_inv in H. destruct H as [_ ->]. unfold interp_k.
+    split; [reflexivity|apply half_Q].
+Qed.
+
+(* ================= extrapolation uses the nearest (first / last) segment ================= *)
+Theorem tmap_extrap_nearest_segment : forall j t q v,
+  sorted_lt (ids t) -> (length (entries t) < phys t)%nat -> (2 <= length (entries t))%nat ->
+  tmap_sample_id_to_timestamp j t q = QVal v ->
+  (q < nth 0 (ids t) 0%Z ->
+     v = nth 0 (times t) 0%Z + Qround_haz (inject_Z (q - nth 0 (ids t) 0%Z) * (inject_Z (nth 1 (times t) 0%Z - nth 0 (times t) 0%Z) / inject_Z (nth 1 (ids t) 0%Z - nth 0 (ids t) 0%Z)))%Q) /\
+  (nth (length (entries t) - 1) (ids t) 0 <= q ->
+     let c := (length (entries t) - 2)%nat in
+     v = nth c (times t) 0%Z + Qround_haz (inject_Z (q - nth c (ids t) 0%Z) * (inject_Z (nth (S c) (times t) 0%Z - nth c (times t) 0%Z) / inject_Z (nth (S c) (ids t) 0%Z - nth c (ids t) 0%Z)))%Q).
+Proof.
+  intros j t q v Hsx Hph E H.
+  rewrite s2t_multi in H by assumption. apply qres_of_val in H.
+  assert (L : (2 <= length (ids t))%nat) by (rewrite ids_length; assumption).
+  assert (P : (length (ids t) < phys t)%nat) by (rewrite ids_length; assumption).
+  split.
+  - intros Hq. rewrite (interp_seg j (phys t) (ids t) (times t) q 0%nat Hsx L P (seg_ok_before _ _ Hsx L Hq)) in H.
+    apply interp_at_inv in H. destruct H as [_ ->]. reflexivity.
+  - intros Hq c. subst c. rewrite <- ids_length in *.
+    rewrite (interp_seg j (phys t) (ids t) (times t) q _ Hsx L P (seg_ok_after _ _ Hsx L Hq)) in H.
+    apply interp_at_inv in H. destruct H as [_ ->]. reflexivity.
+Qed.
+
+(* ================= inverse ================= *)
+Theorem tmap_inverse_within_one_sample : forall j j' t q tm q',
+  sorted_lt (ids t) -> (length (entries t) < phys t)%nat ->
+  (forall i, (i + 1 < length (entries t))%nat ->
+     nth (S i) (ids t) 0%Z - nth i (ids t) 0%Z <= nth (S i) (times t) 0%Z - nth i (times t) 0%Z) ->
+  (rate t <= inject_Z (2 ^ 30))%Q ->
+  tmap_sample_id_to_timestamp j t q = QVal tm ->
+  tmap_timestamp_to_sample_id j' t tm = QVal q' ->
+  -1 <= q' - q <= 1.
+Proof.
+  intros j j' t q tm q' Hsx Hph Hslope Hrate H1 H2.
+  destruct (entries_cases t) as [E|[[s0 [u0 E]]|E]].
+  - unfold tmap_sample_id_to_timestamp in H1. rewrite E in H1. discriminate.
+  - rewrite (s2t_single _ t q s0 u0 E) in H1. rewrite (t2s_single _ t tm s0 u0 E) in H2.
+    destruct (rate_positive (rate t)) eqn:Hr; [|discriminate].
+    apply qres_of_val in H1. apply qres_of_val in H2.
+    apply single_id_to_time_inv in H1; [|assumption]. apply single_time_to_id_inv in H2.
+    subst tm q'.
+    replace (u0 + Z.quot ((q - s0) * Z.pos (Qden (rate t)) * 2 ^ 30) (Qnum (rate t)) - u0)
+      with (Z.quot ((q - s0) * Z.pos (Qden (rate t)) * 2 ^ 30) (Qnum (rate t))) by ring.
+    unfold rate_positive in Hr. unfold Qle, inject_Z in Hrate. cbn [Qnum Qden] in Hrate.
+    pose proof (quot_round_trip (q - s0) (Qnum (rate t)) (2 ^ 30 * Z.pos (Qden (rate t))) ltac:(lia) ltac:(lia)) as R.
+    replace ((q - s0) * (2 ^ 30 * Z.pos (Qden (rate t)))) with ((q - s0) * Z.pos (Qden (rate t)) * 2 ^ 30) in R by ring.
+    lia.
+  - rewrite s2t_multi in H1 by assumption. rewrite t2s_multi in H2 by assumption.
+    apply qres_of_val in H1. apply qres_of_val in H2.
+    apply (interp_inverse j j' (phys t) (ids t) (times t) q tm q' Hsx); try assumption;
+      rewrite ?ids_length, ?times_length; try assumption; try reflexivity.
+    intros i Hi. rewrite ids_length in Hi. apply Hslope. assumption.
+Qed.
+
+(* ------------------------------------------------------------------ *)
+
+(* ================= jls_tmap_add: reachable maps ================= *)
+Fixpoint incr (l : list Z) : Prop :=
+  match l with
+  | a :: (b :: _) as r => a < b /\ incr r
+  | _ => True
+  end.
+
+Lemma incr_sorted_lt : forall l, incr l -> sorted_lt l.
+Proof.
+  intros l H. apply adj_sorted_lt. revert H. induction l as [|a [|b r] IH]; intros H i Hi; cbn [length] in Hi; try lia.
+  destruct H as [Hab Hr]. destruct i as [|i]; [exact Hab|].
+  change (nth i (b :: r) 0 < nth (S i) (b :: r) 0). apply IH; [exact Hr|cbn [length]; lia].
+Qed.
+
+Lemma incr_app_last : forall l s, incr l -> (l = [] \/ last l 0 < s) -> incr (l ++ [s]).
+Proof.
+  induction l as [|a [|b r] IH]; intros s Hi Hl.
+  - exact I.
+  - cbn. destruct Hl as [Hl|Hl]; [discriminate|]. cbn in Hl. split; [lia|exact I].
+  - destruct Hi as [Hab Hr]. change ((a :: b :: r) ++ [s]) with (a :: ((b :: r) ++ [s])).
+    assert (H2 : incr ((b :: r) ++ [s])).
+    { apply IH; [exact Hr|]. right. destruct Hl as [Hl|Hl]; [discriminate|]. exact Hl. }
+    change ((b :: r) ++ [s]) with (b :: (r ++ [s])) in *. split; assumption.
+Qed.
+
+Lemma add_last_ids : forall es s u es' rc, add_last es s u = (es', rc) ->
+  map fst es' = map fst es \/
+  (map fst es' = map fst es ++ [s] /\ (map fst es = [] \/ last (map fst es) 0 < s)).
+Proof.
+  induction es as [|e r IH]; intros s u es' rc H.
+  - cbn in H. inversion H. subst. right. cbn. split; [reflexivity|left; reflexivity].
+  - cbn [add_last] in H. destruct r as [|e2 r2].
+    + destruct (s =? fst e) eqn:E1.
+      * inversion H. subst. left. cbn. f_equal. lia.
+      * destruct (s <=? fst e) eqn:E2.
+        -- inversion H. subst. left. reflexivity.
+        -- inversion H. subst. right. cbn. split; [reflexivity|right; lia].
+    + destruct (add_last (e2 :: r2) s u) as [r' rc'] eqn:Er. inversion H. subst es' rc. clear H.
+      destruct (IH s u r' rc' Er) as [I1|[I1 I2]].
+      * left. cbn [map] in *. rewrite I1. reflexivity.
+      * right. cbn [map] in *. rewrite I1. split; [reflexivity|].
+        right. destruct I2 as [I2|I2]; [discriminate|]. exact I2.
+Qed.
+
+Lemma add_last_spec : forall es s u es' rc, add_last es s u = (es', rc) ->
+  incr (map fst es) ->
+  incr (map fst es') /\ (length es <= length es' <= S (length es))%nat.
+Proof.
+  intros es s u es' rc H Hi.
+  destruct (add_last_ids es s u es' rc H) as [I1|[I1 I2]].
+  - rewrite I1. split; [assumption|]. rewrite <- (map_length fst es'), I1, map_length. lia.
+  - rewrite I1. split; [apply incr_app_last; assumption|].
+    rewrite <- (map_length fst es'), I1, app_length, map_length. cbn. lia.
+Qed.
+
+Definition A0 : nat := N.to_nat TMAP_ENTRIES_ALLOC_INIT.
+
+Definition reach_inv (t : tmap) : Prop :=
+  incr (ids t) /\ (length (entries t) <= alloc t)%nat /\
+  ((alloc t = A0 /\ phys t = A0) \/ (phys t = 2 * alloc t /\ 2 * A0 <= alloc t)%nat).
+
+Lemma reach_inv_alloc : forall r, reach_inv (tmap_alloc r).
+Proof.
+  intros r. unfold reach_inv, tmap_alloc, ids, A0. cbn [entries alloc phys map length incr].
+  split; [exact I|]. split; [lia|]. left; split; reflexivity.
+Qed.
+
+Lemma A0_pos : (0 < A0)%nat.
+Proof. unfold A0. vm_compute. lia. Qed.
+
+Lemma reach_inv_add : forall t s u, reach_inv t -> reach_inv (fst (tmap_add t s u)).
+Proof.
+  intros t s u [Hi [Hl Hp]]. unfold tmap_add.
+  pose proof A0_pos as HA.
+  assert (Hg : incr (ids (tmap_grow t)) /\ (length (entries (tmap_grow t)) < alloc (tmap_grow t))%nat /\
+          entries (tmap_grow t) = entries t /\
+          ((alloc (tmap_grow t) = A0 /\ phys (tmap_grow t) = A0) \/
+           (phys (tmap_grow t) = 2 * alloc (tmap_grow t) /\ 2 * A0 <= alloc (tmap_grow t))%nat)).
+  { unfold tmap_grow. destruct (alloc t <=? length (entries t))%nat eqn:E.
+    - unfold ids in *. cbn [entries alloc phys].
+      change (N.to_nat (SIZEOF_utc_summary_entry / TMAP_CELL_BYTES)) with 2%nat.
+      split; [assumption|]. split; [lia|]. split; [reflexivity|]. right. lia.
+    - split; [assumption|]. split; [lia|]. split; [reflexivity|]. assumption. }
+  destruct Hg as [G1 [G2 [G3 G4]]].
+  destruct (add_last (entries (tmap_grow t)) s u) as [es rc] eqn:Ea. cbn [fst].
+  destruct (add_last_spec _ _ _ _ _ Ea G1) as [S1 S2].
+  unfold reach_inv, ids. cbn [entries alloc phys]. split; [assumption|]. split; [lia|]. assumption.
+Qed.
+
+Lemma reach_inv_add_all : forall l t, reach_inv t -> reach_inv (tmap_add_all t l).
+Proof.
+  induction l as [|e l IH]; intros t H; [exact H|].
+  unfold tmap_add_all. cbn [fold_left]. apply IH. apply reach_inv_add. exact H.
+Qed.
+
+(* every map built by jls_tmap_alloc + any sequence of jls_tmap_add: ids strictly increasing,
+   and x[length] is outside the heap object exactly when the map holds ENTRIES_ALLOC_INIT entries *)
+Theorem tmap_reachable : forall r l, let t := tmap_add_all (tmap_alloc r) l in
+  sorted_lt (ids t) /\ (length (entries t) <= phys t)%nat /\
+  (length (entries t) = phys t <-> length (entries t) = N.to_nat TMAP_ENTRIES_ALLOC_INIT /\ alloc t = N.to_nat TMAP_ENTRIES_ALLOC_INIT).
+Proof.
+  intros r l t. destruct (reach_inv_add_all l _ (reach_inv_alloc r)) as [Hi [Hl Hp]]. fold t in Hi, Hl, Hp.
+  pose proof A0_pos. fold A0. split; [apply incr_sorted_lt; assumption|]. split; [lia|]. lia.
+Qed.
+
+(* ------------------------------------------------------------------ *)
+
+Lemma round_close : forall a b : Q, (Qabs (a - b) < 1)%Q -> -1 <= Qround_haz a - Qround_haz b <= 1.
+Proof.
+  intros a b H.
+  pose proof (Qround_haz_half a) as Ha. pose proof (Qround_haz_half b) as Hb.
+  apply Qabs_Qlt_condition in H. apply Qabs_Qle_condition in Ha. apply Qabs_Qle_condition in Hb.
+  assert (Hq : (- (2) < inject_Z (Qround_haz a - Qround_haz b) < 2)%Q).
+  { unfold Z.sub. rewrite inject_Z_plus, inject_Z_opp. split; lra. }
+  destruct Hq as [H1 H2].
+  change (- (2))%Q with (inject_Z (-2)) in H1. change 2%Q with (inject_Z 2) in H2.
+  rewrite <- Zlt_Qlt in H1, H2. lia.
+Qed.
+
+Section Binary64Gap.
+(* fl = rounding of a real to binary64; u = 2^-53 unit roundoff (round to nearest, no
+   underflow: a quotient of two non-zero int64 values is >= 2^-63 in magnitude) *)
+Variable fl : Q -> Q.
+Hypothesis fl_err : forall x : Q, (Qabs (fl x - x) <= Qabs x * (1 # 2 ^ 53))%Q.
+
+Theorem c_binary64_within_one_partial : forall dk ds dt : Z,
+  let exact := (inject_Z dk * (inject_Z dt / inject_Z ds))%Q in
+  let computed := fl (inject_Z dk * fl (inject_Z dt / inject_Z ds))%Q in
+  (Qabs exact < inject_Z (2 ^ 51))%Q ->
+  (Qabs (computed - exact) < 1)%Q /\ -1 <= Qround_haz computed - Qround_haz exact <= 1.
+Proof.
+  intros dk ds dt exact computed Hv.
+  assert (Hc : (Qabs (computed - exact) < 1)%Q).
+  { subst exact computed.
+    set (s := (inject_Z dt / inject_Z ds)%Q) in *. set (k := inject_Z dk) in *.
+    pose proof (fl_err s) as E1. pose proof (fl_err (k * fl s)%Q) as E2.
+    set (p := (k * fl s)%Q) in *.
+    assert (Hd : (fl p - k * s == (fl p - p) + k * (fl s - s))%Q) by (unfold p; ring).
+    rewrite Hd.
+    assert (Hks : (Qabs (k * (fl s - s)) <= Qabs (k * s) * (1 # 2 ^ 53))%Q).
+    { rewrite !Qabs_Qmult. rewrite <- Qmult_assoc. rewrite (Qmult_comm (Qabs k) (Qabs (fl s - s))), (Qmult_comm (Qabs k)).
+      apply Qmult_le_compat_r; [exact E1|apply Qabs_nonneg]. }
+    assert (Hp : (Qabs p <= Qabs (k * s) + Qabs (k * s) * (1 # 2 ^ 53))%Q).
+    { assert (Hpp : (p == k * s + k * (fl s - s))%Q) by (unfold p; ring).
+      rewrite Hpp at 1. eapply Qle_trans; [apply Qabs_triangle|]. apply Qplus_le_r. exact Hks. }
+    eapply Qle_lt_trans; [apply Qabs_triangle|].
+    set (V := Qabs (k * s)) in *. set (P := Qabs p) in *.
+    set (a := Qabs (fl p - p)) in *. set (b := Qabs (k * (fl s - s))) in *.
+    assert (0 <= V)%Q by apply Qabs_nonneg.
+    change (inject_Z (2 ^ 51)) with (2251799813685248 # 1)%Q in Hv.
+    change (1 # 2 ^ 53)%Q with (1 # 9007199254740992)%Q in *.
+    assert (a <= (V + V * (1 # 9007199254740992)) * (1 # 9007199254740992))%Q.
+    { eapply Qle_trans; [exact E2|]. apply Qmult_le_compat_r; [exact Hp|discriminate]. }
+    lra. }
+  split; [exact Hc|apply round_close; exact Hc].
+Qed.
+End Binary64Gap.
+
+Example c_binary64_hypothesis_satisfiable : forall x : Q, (Qabs ((fun y => y) x - x) <= Qabs x * (1 # 2 ^ 53))%Q.
+Proof.
+  intros x. assert (H : (x - x == 0)%Q) by ring. rewrite H. cbn [Qabs].
+  apply Qmult_le_0_compat; [apply Qabs_nonneg|discriminate].
+Qed.
+
+(* ------------------------------------------------------------------ *)
+
+(* boolean checkers for concrete maps *)
+Fixpoint incrb (l : list Z) : bool :=
+  match l with
+  | a :: (b :: _) as r => (a <? b) && incrb r
+  | _ => true
+  end.
+Lemma incrb_incr : forall l, incrb l = true -> incr l.
+Proof.
+  induction l as [|a [|b r] IH]; intros H; try exact I.
+  cbn [incrb] in H. apply andb_true_iff in H. destruct H as [H1 H2]. split; [lia|apply IH; exact H2].
+Qed.
+Lemma all_in_b : forall B l, forallb (fun v => (- B <=? v) && (v <=? B)) l = true -> all_in B l.
+Proof.
+  intros B l H. unfold all_in. apply Forall_forall. intros v Hv.
+  rewrite forallb_forall in H. specialize (H v Hv). lia.
+Qed.
+
+(* ================= concrete maps: hypotheses are satisfiable, defects are real ================= *)
+(* 1 kHz signal, three anchors with irregular spacing and a drifting clock, UTC around 2^58 *)
+Definition ex_map : tmap :=
+  tmap_add_all (tmap_alloc (1000 # 1)) [(0, 2 ^ 58); (1000, 2 ^ 58 + 2 ^ 30); (2500, 2 ^ 58 + 5 * 2 ^ 29 + 7)].
+Definition ex_single : tmap := tmap_add_all (tmap_alloc (1000 # 1)) [(5000, 2 ^ 58)].
+
+Lemma ex_map_ok :
+  sorted_lt (ids ex_map) /\ sorted_lt (times ex_map) /\ sorted_le (times ex_map) /\
+  (length (entries ex_map) < phys ex_map)%nat /\
+  all_in (2 ^ 62 - 1) (ids ex_map) /\ all_in (2 ^ 62 - 1) (times ex_map) /\ (0 < rate ex_map)%Q /\
+  (rate ex_map <= inject_Z (2 ^ 30))%Q /\
+  (forall i, (i + 1 < length (entries ex_map))%nat ->
+     nth (S i) (ids ex_map) 0 - nth i (ids ex_map) 0 <= nth (S i) (times ex_map) 0 - nth i (times ex_map) 0).
+Proof.
+  assert (S1 : sorted_lt (ids ex_map)) by (apply incr_sorted_lt, incrb_incr; vm_compute; reflexivity).
+  assert (S2 : sorted_lt (times ex_map)) by (apply incr_sorted_lt, incrb_incr; vm_compute; reflexivity).
+  split; [exact S1|]. split; [exact S2|]. split; [apply sorted_lt_le; exact S2|].
+  split; [apply Nat.ltb_lt; vm_compute; reflexivity|].
+  split; [apply all_in_b; vm_compute; reflexivity|].
+  split; [apply all_in_b; vm_compute; reflexivity|].
+  split; [reflexivity|]. split; [vm_compute; discriminate|].
+  intros i Hi. change (length (entries ex_map)) with 3%nat in Hi.
+  destruct i as [|[|i]]; [apply Z.leb_le; vm_compute; reflexivity|apply Z.leb_le; vm_compute; reflexivity|lia].
+Qed.
+
+Lemma ex_map_values :
+  tmap_sample_id_to_timestamp 0 ex_map 500 = QVal (2 ^ 58 + 2 ^ 29) /\
+  tmap_sample_id_to_timestamp 12345 ex_map 1000 = QVal (2 ^ 58 + 2 ^ 30) /\
+  tmap_sample_id_to_timestamp 0 ex_map 3000 = QVal (2 ^ 58 + 5 * 2 ^ 29 + 7 + 536870914) /\
+  tmap_timestamp_to_sample_id 0 ex_map (2 ^ 58 + 2 ^ 29) = QVal 500 /\
+  tmap_sample_id_to_timestamp 0 ex_single 6000 = QVal (2 ^ 58 + 2 ^ 30).
+Proof. vm_compute. repeat split; reflexivity. Qed.
+
+(* ------------------------------------------------------------------ *)
+
+(* exactly ENTRIES_ALLOC_INIT anchors: 1 kHz, one anchor per second *)
+Definition full_adds : list (Z * Z) :=
+  map (fun i => (Z.of_nat i * 1000, 2 ^ 58 + Z.of_nat i * 2 ^ 30)) (seq 0 (N.to_nat TMAP_ENTRIES_ALLOC_INIT)).
+Definition full_map : tmap := tmap_add_all (tmap_alloc (1000 # 1)) full_adds.
+
+Lemma full_map_facts :
+  length (entries full_map) = N.to_nat TMAP_ENTRIES_ALLOC_INIT /\ phys full_map = N.to_nat TMAP_ENTRIES_ALLOC_INIT /\
+  incrb (ids full_map) = true /\ incrb (times full_map) = true.
+Proof. vm_compute. repeat split; reflexivity. Qed.
+
+Theorem tmap_oob_refuted :
+  exists (t : tmap) (q : Z),
+    t = tmap_add_all (tmap_alloc (1000 # 1)) full_adds /\
+    sorted_lt (ids t) /\ sorted_lt (times t) /\
+    length (entries t) = N.to_nat TMAP_ENTRIES_ALLOC_INIT /\
+    forall junk, tmap_sample_id_to_timestamp junk t q = QFault OOB_read /\
+                 tmap_timestamp_to_sample_id junk t (2 ^ 58 + 1000 * 2 ^ 30) = QFault OOB_read.
+Proof.
+  exists full_map, 999001. split; [reflexivity|].
+  destruct full_map_facts as [F1 [F2 [F3 F4]]].
+  assert (S1 : sorted_lt (ids full_map)) by (apply incr_sorted_lt, incrb_incr; exact F3).
+  assert (S2 : sorted_lt (times full_map)) by (apply incr_sorted_lt, incrb_incr; exact F4).
+  split; [exact S1|]. split; [exact S2|]. split; [exact F1|].
+  intros junk. split.
+  - apply tmap_oob_iff; [exact S1|rewrite F1; vm_compute; lia|rewrite F1, F2; lia|].
+    apply Z.ltb_lt. vm_compute. reflexivity.
+  - rewrite t2s_multi by (rewrite F1; vm_compute; lia).
+    assert (H : search junk (phys full_map) (times full_map) (2 ^ 58 + 1000 * 2 ^ 30) = Fault OOB_read).
+    { apply search_oob_iff_lemma; [exact S2|rewrite times_length, F1; vm_compute; lia|rewrite times_length, F1, F2; lia|].
+      apply Z.ltb_lt. vm_compute. reflexivity. }
+    unfold interp. rewrite H. reflexivity.
+Qed.
+
+(* two anchors with the same time (allowed: times non-decreasing): time -> id divides by zero *)
+Definition eqt_map : tmap :=
+  tmap_add_all (tmap_alloc (1000 # 1)) [(0, 2 ^ 40); (1000, 2 ^ 40)].
+
+Theorem tmap_equal_times_refuted :
+  exists (t : tmap) (s u : Z),
+    sorted_lt (ids t) /\ sorted_le (times t) /\ (length (entries t) < phys t)%nat /\
+    In (s, u) (entries t) /\
+    tmap_sample_id_to_timestamp 0 t s = QVal u /\
+    tmap_timestamp_to_sample_id 0 t u = QFault FP_invalid.
+Proof.
+  exists eqt_map, 0, (2 ^ 40).
+  split; [apply incr_sorted_lt, incrb_incr; vm_compute; reflexivity|].
+  split.
+  { intros i k Hik. change (length (times eqt_map)) with 2%nat in Hik.
+    destruct i as [|[|i]]; destruct k as [|[|k]]; try lia; apply Z.leb_le; vm_compute; reflexivity. }
+  split; [apply Nat.ltb_lt; vm_compute; reflexivity|].
+  split; [left; reflexivity|].
+  vm_compute. split; reflexivity.
+Qed.
